@@ -2,7 +2,7 @@
    product (spgemm_den), its pre-count is exact (count_nnz_exact), its rows come out sorted
    (spgemm_rows_sorted), _dot_coo_ndarray terminates, the _dot dispatch is total. *)
 From Coq Require Import ZArith List Bool Lia Sorting.Sorted Sorting.Permutation.
-From Verif Require Import Py PyExt Shape COO GCXS G_dot S_dot NpDot Dot.
+From Verif Require Import Py PyExt Shape COO GCXS G_dot S_dot NpDot Dot COOP.
 Import ListNotations.
 Open Scope Z_scope.
 
@@ -2148,6 +2148,1535 @@ Proof.
   intros V vzero vadd vmul veqb SR Hz a b n_in m p Ha Hp.
   destruct (csc_ndarray_proof V vzero vadd vmul veqb SR Hz a b n_in m p Ha Hp) as [r [E [_ [_ Hd]]]]. exists r. auto.
 Qed.
+
+(* ====================================================================== the dense-result kernels *)
+Lemma fold_left_ext_eq {S B} (f g : S -> B -> S) (l : list B) (s : S) :
+  (forall s x, f s x = g s x) -> fold_left f l s = fold_left g l s.
+Proof. intros H. revert s; induction l as [|x l IH]; intros s; simpl; [reflexivity|]. rewrite H. apply IH. Qed.
+
+Section DenseKernels.
+  Variable V : Type.
+  Variable vzero : V.
+  Variable vadd vmul : V -> V -> V.
+  Hypothesis SR : comm_semiring vzero vadd vmul.
+
+  (* a kernel as the stream of its updates  out[r, c] += v *)
+  Definition apply_updates (us : list (Z * Z * V)) (out : Z -> Z -> V) : Z -> Z -> V :=
+    fold_left (fun o (u : Z * Z * V) => upd_add V vadd o (fst (fst u)) (snd (fst u)) (snd u)) us out.
+
+  Definition proj_row (i : Z) (us : list (Z * Z * V)) : list (Z * V) :=
+    map (fun u => (snd (fst u), snd u)) (filter (fun u => fst (fst u) =? i) us).
+
+  Lemma apply_updates_at us : forall out i j,
+    apply_updates us out i j = ksum V vadd j (out i j) (proj_row i us).
+  Proof.
+    unfold apply_updates, proj_row. induction us as [|[[r c] v] us IH]; intros out i j; simpl; [reflexivity|].
+    rewrite IH. unfold upd_add, upd2. destruct (Z.eqb_spec r i) as [->|Hne]; simpl.
+    - rewrite Z.eqb_refl. simpl. destruct (Z.eqb_spec j c) as [->|Hnc].
+      + rewrite Z.eqb_refl. reflexivity.
+      + destruct (Z.eqb_spec c j); [congruence|reflexivity].
+    - destruct (Z.eqb_spec i r); [congruence|]. reflexivity.
+  Qed.
+
+  Lemma apply_updates_zero us i j :
+    apply_updates us (fun _ _ => vzero) i j = ssum V vzero vadd j (proj_row i us).
+  Proof. rewrite apply_updates_at, (ksum_ssum V vzero vadd vmul SR). apply (sr_add_0_l _ _ _ SR). Qed.
+
+  Lemma proj_row_app i u1 u2 : proj_row i (u1 ++ u2) = proj_row i u1 ++ proj_row i u2.
+  Proof. unfold proj_row. rewrite filter_app, map_app. reflexivity. Qed.
+
+  Lemma proj_row_flat_map {A} i (f : A -> list (Z * Z * V)) l :
+    proj_row i (flat_map f l) = flat_map (fun x => proj_row i (f x)) l.
+  Proof. induction l as [|x l IH]; simpl; [reflexivity|]. rewrite proj_row_app, IH. reflexivity. Qed.
+
+  (* only the iteration x = i of an outer loop over distinct indices contributes *)
+  Lemma flat_map_only {B} (L : list Z) (i : Z) (g : Z -> list B) :
+    NoDup L -> flat_map (fun x => if x =? i then g x else []) L = if mem_z i L then g i else [].
+  Proof.
+    induction L as [|x L IH]; simpl; intros Hnd; [reflexivity|].
+    apply NoDup_cons_iff in Hnd. destruct Hnd as [Hx Hnd]. rewrite (IH Hnd). unfold mem_z. simpl.
+    destruct (Z.eqb_spec x i) as [->|Hne]; simpl.
+    - rewrite Z.eqb_refl. simpl. destruct (existsb (Z.eqb i) L) eqn:E; [|apply app_nil_r].
+      exfalso. apply Hx. apply existsb_exists in E. destruct E as [y [Hy Ey]]. apply Z.eqb_eq in Ey. subst. exact Hy.
+    - destruct (Z.eqb_spec i x); [congruence|]. reflexivity.
+  Qed.
+
+  Lemma ssum_zrange_key (w : Z -> V) p j : 0 <= j < p ->
+    ssum V vzero vadd j (map (fun j' => (j', w j')) (zrange p)) = w j.
+  Proof.
+    intros Hj. unfold ssum.
+    assert (G : forall L, NoDup L -> In j L ->
+              vsum V vzero vadd (map snd (filter (fun kp : Z * V => fst kp =? j) (map (fun j' => (j', w j')) L))) = w j).
+    { induction L as [|x L IH]; simpl; intros Hnd Hin; [tauto|].
+      apply NoDup_cons_iff in Hnd. destruct Hnd as [Hx Hnd].
+      destruct (Z.eqb_spec x j) as [->|Hne]; simpl.
+      - assert (E : filter (fun kp : Z * V => fst kp =? j) (map (fun j' => (j', w j')) L) = []).
+        { clear -Hx. induction L as [|y L IH]; simpl; [reflexivity|].
+          destruct (Z.eqb_spec y j) as [->|?]; [exfalso; apply Hx; left; reflexivity|]. apply IH. intros H; apply Hx; right; exact H. }
+        rewrite E. simpl. apply (add_0_r V vzero vadd vmul SR).
+      - destruct Hin as [?|Hin]; [contradiction|]. apply IH; assumption. }
+    apply G; [apply zrange_NoDup|apply zrange_In; exact Hj].
+  Qed.
+
+  (* ------------------------------------------------------------------ _dot_csr_ndarray *)
+  Definition csr_nd_updates (n_row n_col : Z) (a : csr V) (b : Z -> Z -> V) : list (Z * Z * V) :=
+    flat_map (fun i => flat_map (fun kv => map (fun j => (i, j, vmul (snd kv) (b (fst kv) j))) (zrange n_col)) (row_pairs a i))
+             (zrange n_row).
+
+  Lemma fold_map_updates {A} (f : A -> Z * Z * V) (L : list A) out :
+    fold_left (fun o x => upd_add V vadd o (fst (fst (f x))) (snd (fst (f x))) (snd (f x))) L out
+    = apply_updates (map f L) out.
+  Proof. unfold apply_updates. revert out; induction L; intros out; simpl; auto. Qed.
+
+  Lemma apply_updates_app u1 u2 out : apply_updates (u1 ++ u2) out = apply_updates u2 (apply_updates u1 out).
+  Proof. unfold apply_updates. apply fold_left_app. Qed.
+
+  Lemma fold_flat_updates {A} (g : A -> list (Z * Z * V)) (L : list A) out :
+    fold_left (fun o x => apply_updates (g x) o) L out = apply_updates (flat_map g L) out.
+  Proof. revert out; induction L as [|x L IH]; intros out; simpl; [reflexivity|]. rewrite apply_updates_app. apply IH. Qed.
+
+  Lemma dot_csr_ndarray_updates n_row n_col a b :
+    dot_csr_ndarray V vzero vadd vmul n_row n_col a b = apply_updates (csr_nd_updates n_row n_col a b) (fun _ _ => vzero).
+  Proof.
+    unfold dot_csr_ndarray, csr_nd_updates. rewrite <- fold_flat_updates.
+    apply fold_left_ext_eq. intros out i. rewrite <- fold_flat_updates.
+    apply fold_left_ext_eq. intros out' kv.
+    apply (fold_map_updates (fun j => (i, j, vmul (snd kv) (b (fst kv) j)))).
+  Qed.
+
+  Lemma proj_row_same {A} i (L : list A) (cj : A -> Z) (w : A -> V) :
+    proj_row i (map (fun x => (i, cj x, w x)) L) = map (fun x => (cj x, w x)) L.
+  Proof. unfold proj_row. induction L as [|x L IH]; simpl; [reflexivity|]. rewrite Z.eqb_refl. simpl. rewrite IH. reflexivity. Qed.
+
+  Lemma proj_row_other {A} i r (L : list A) (cj : A -> Z) (w : A -> V) : r <> i ->
+    proj_row i (map (fun x => (r, cj x, w x)) L) = [].
+  Proof.
+    intros Hne. unfold proj_row. induction L as [|x L IH]; simpl; [reflexivity|].
+    destruct (Z.eqb_spec r i); [congruence|exact IH].
+  Qed.
+
+  Lemma flat_map_nil {A B} (l : list A) : flat_map (fun _ : A => @nil B) l = [].
+  Proof. induction l; simpl; auto. Qed.
+
+  Lemma vsum_map_ext_in {A} (f g : A -> V) l : (forall x, In x l -> f x = g x) ->
+    vsum V vzero vadd (map f l) = vsum V vzero vadd (map g l).
+  Proof. intros H. f_equal. apply map_ext_in. exact H. Qed.
+
+  (* value: out[i, j] = sum_c a[i, c] * b[c, j];  bounds: every update lies inside the n_row x n_col output *)
+  Theorem dot_csr_ndarray_den_proof n_row n_in n_col (a : csr V) (b : Z -> Z -> V) :
+    csr_wfb n_row n_in a = true ->
+    Forall (fun u => 0 <= fst (fst u) < n_row /\ 0 <= snd (fst u) < n_col) (csr_nd_updates n_row n_col a b)
+    /\ forall i j, 0 <= i < n_row -> 0 <= j < n_col ->
+         dot_csr_ndarray V vzero vadd vmul n_row n_col a b i j
+         = np_matmul2 V vzero vadd vmul n_in (csr_den V vzero a) b i j.
+  Proof.
+    intros Ha. destruct (csr_wfb_facts V _ _ _ Ha) as [Ha1 [_ [_ [_ [Ha5 Ha6]]]]]. split.
+    - apply Forall_forall. intros [[r c] v] Hin. unfold csr_nd_updates in Hin.
+      apply in_flat_map in Hin. destruct Hin as [i [Hi Hin]]. apply in_flat_map in Hin. destruct Hin as [kv [_ Hin]].
+      apply in_map_iff in Hin. destruct Hin as [j [E Hj]]. inversion E; subst. simpl.
+      apply zrange_In in Hi. apply zrange_In in Hj. lia.
+    - intros i j Hi Hj. rewrite dot_csr_ndarray_updates, apply_updates_zero. unfold csr_nd_updates.
+      rewrite proj_row_flat_map.
+      rewrite (flat_map_ext _ (fun x => if x =? i then
+                 flat_map (fun kv => map (fun j' => (j', vmul (snd kv) (b (fst kv) j'))) (zrange n_col)) (row_pairs a x) else [])).
+      2:{ intros x. rewrite proj_row_flat_map. destruct (Z.eqb_spec x i) as [->|Hne].
+          - apply flat_map_ext. intros kv. apply (proj_row_same i (zrange n_col) (fun j' => j')).
+          - rewrite (flat_map_ext _ (fun _ => [])); [apply flat_map_nil|].
+            intros kv. apply (proj_row_other i x (zrange n_col) (fun j' => j')). exact Hne. }
+      rewrite (flat_map_only (zrange n_row) i _ (zrange_NoDup n_row)).
+      assert (Hm : mem_z i (zrange n_row) = true) by (apply mem_z_In, zrange_In; exact Hi). rewrite Hm.
+      rewrite (ssum_flat_map V vzero vadd vmul SR).
+      rewrite (vsum_map_ext_in _ (fun kv => vmul (snd kv) (b (fst kv) j))).
+      2:{ intros kv _. apply (ssum_zrange_key (fun j' => vmul (snd kv) (b (fst kv) j')) n_col j Hj). }
+      assert (Hra : Forall (fun jav => 0 <= fst jav < n_in) (row_pairs a i)).
+      { apply Forall_forall. intros jav Hin. rewrite Forall_forall in Ha5. apply Ha5. eapply row_pairs_in_indices. exact Hin. }
+      assert (Hnd : NoDup (map fst (row_pairs a i))).
+      { rewrite row_pairs_keys by assumption. apply SS_lt_NoDup, strictly_increasing_SS, Ha6. exact Hi. }
+      rewrite (sparse_row_sum V vzero vadd vmul SR (fun c => b c j) n_in _ Hnd Hra). reflexivity.
+  Qed.
+
+  (* ------------------------------------------------------------------ _dot_csc_ndarray *)
+  Definition csc_nd_updates (n_in p : Z) (a : csr V) (b : Z -> Z -> V) : list (Z * Z * V) :=
+    flat_map (fun i => flat_map (fun kv => map (fun j => (fst kv, j, vmul (snd kv) (b i j))) (zrange p)) (row_pairs a i))
+             (zrange n_in).
+
+  Lemma dot_csc_ndarray_updates n_in p a b :
+    dot_csc_ndarray V vzero vadd vmul n_in p a b = apply_updates (csc_nd_updates n_in p a b) (fun _ _ => vzero).
+  Proof.
+    unfold dot_csc_ndarray, csc_nd_updates. rewrite <- fold_flat_updates.
+    apply fold_left_ext_eq. intros out i. rewrite <- fold_flat_updates.
+    apply fold_left_ext_eq. intros out' kv.
+    apply (fold_map_updates (fun j => (fst kv, j, vmul (snd kv) (b i j)))).
+  Qed.
+
+  Lemma vsum_pick (row : list (Z * V)) r x : NoDup (map fst row) ->
+    vsum V vzero vadd (map (fun kv => if fst kv =? r then vmul (snd kv) x else vzero) row) = vmul (row_get V vzero row r) x.
+  Proof.
+    unfold row_get. induction row as [|[c w] row IH]; simpl; intros Hnd.
+    - symmetry. apply (sr_mul_0_l _ _ _ SR).
+    - apply NoDup_cons_iff in Hnd. destruct Hnd as [Hc Hnd]. rewrite (IH Hnd).
+      destruct (Z.eqb_spec c r) as [->|Hne].
+      + assert (E : row_lookup row r = None) by (apply row_lookup_None; exact Hc).
+        rewrite E, (sr_mul_0_l _ _ _ SR). apply (add_0_r V vzero vadd vmul SR).
+      + rewrite (sr_add_0_l _ _ _ SR). destruct (row_lookup row r); reflexivity.
+  Qed.
+
+  (* a: the CSC triple of the m x n_in left operand *)
+  Theorem dot_csc_ndarray_den_proof m n_in p (a : csr V) (b : Z -> Z -> V) :
+    csr_wfb n_in m a = true ->
+    Forall (fun u => 0 <= fst (fst u) < m /\ 0 <= snd (fst u) < p) (csc_nd_updates n_in p a b)
+    /\ forall r j, 0 <= j < p ->
+         dot_csc_ndarray V vzero vadd vmul n_in p a b r j
+         = np_matmul2 V vzero vadd vmul n_in (fun r i => csr_den V vzero a i r) b r j.
+  Proof.
+    intros Ha. destruct (csr_wfb_facts V _ _ _ Ha) as [Ha1 [_ [_ [_ [Ha5 Ha6]]]]]. split.
+    - apply Forall_forall. intros [[r c] v] Hin. unfold csc_nd_updates in Hin.
+      apply in_flat_map in Hin. destruct Hin as [i [Hi Hin]]. apply in_flat_map in Hin. destruct Hin as [kv [Hkv Hin]].
+      apply in_map_iff in Hin. destruct Hin as [j [E Hj]]. inversion E; subst. simpl.
+      apply zrange_In in Hj. split; [|lia]. rewrite Forall_forall in Ha5. apply Ha5. eapply row_pairs_in_indices. exact Hkv.
+    - intros r j Hj. rewrite dot_csc_ndarray_updates, apply_updates_zero. unfold csc_nd_updates.
+      rewrite proj_row_flat_map, (ssum_flat_map V vzero vadd vmul SR).
+      unfold np_matmul2, sum_over. apply vsum_map_ext_in. intros i Hi. apply zrange_In in Hi.
+      rewrite proj_row_flat_map, (ssum_flat_map V vzero vadd vmul SR).
+      rewrite (vsum_map_ext_in _ (fun kv => if fst kv =? r then vmul (snd kv) (b i j) else vzero)).
+      + apply vsum_pick. rewrite row_pairs_keys by assumption. apply SS_lt_NoDup, strictly_increasing_SS, Ha6. exact Hi.
+      + intros kv _. destruct (Z.eqb_spec (fst kv) r) as [E|Hne].
+        * rewrite E. rewrite (proj_row_same r (zrange p) (fun j' => j')).
+          apply (ssum_zrange_key (fun j' => vmul (snd kv) (b i j')) p j Hj).
+        * rewrite (proj_row_other r (fst kv) (zrange p) (fun j' => j')) by exact Hne. reflexivity.
+  Qed.
+
+  (* ------------------------------------------------------------------ _dot_ndarray_coo *)
+  Definition nd_coo_updates (m : Z) (a1 : Z -> Z -> V) (cells : list (Z * Z * V)) : list (Z * Z * V) :=
+    flat_map (fun i => map (fun t => (i, snd (fst t), vmul (a1 i (fst (fst t))) (snd t))) cells) (zrange m).
+
+  Lemma dot_ndarray_coo_updates m a1 rows2 cols2 data2 :
+    dot_ndarray_coo V vzero vadd vmul m a1 rows2 cols2 data2
+    = apply_updates (nd_coo_updates m a1 (combine (combine rows2 cols2) data2)) (fun _ _ => vzero).
+  Proof.
+    unfold dot_ndarray_coo, nd_coo_updates. rewrite <- fold_flat_updates.
+    apply fold_left_ext_eq. intros out i.
+    apply (fold_map_updates (fun t : Z * Z * V => (i, snd (fst t), vmul (a1 i (fst (fst t))) (snd t)))).
+  Qed.
+
+  Definition col_of (j : Z) (cs : list (Z * Z * V)) : list (Z * V) :=
+    map (fun t => (fst (fst t), snd t)) (filter (fun t => snd (fst t) =? j) cs).
+
+  Lemma cell_lookup_col_of cs r j : cell_lookup V cs r j = row_lookup (col_of j cs) r.
+  Proof.
+    unfold col_of. induction cs as [|[[r' c'] v] cs IH]; simpl; [reflexivity|].
+    rewrite IH. destruct (Z.eqb_spec c' j); simpl.
+    - rewrite andb_true_r. reflexivity.
+    - rewrite andb_false_r.
+      destruct (row_lookup (map (fun t => (fst (fst t), snd t)) (filter (fun t => snd (fst t) =? j) cs)) r); reflexivity.
+  Qed.
+
+  Lemma col_of_keys_NoDup cs j : NoDup (map fst cs) -> NoDup (map fst (col_of j cs)).
+  Proof.
+    unfold col_of. induction cs as [|[[r c] v] cs IH]; simpl; intros Hnd; [constructor|].
+    apply NoDup_cons_iff in Hnd. destruct Hnd as [Hni Hnd]. specialize (IH Hnd).
+    destruct (Z.eqb_spec c j) as [->|Hne]; simpl; [|exact IH].
+    constructor; [|exact IH]. intros Hin. apply Hni.
+    rewrite map_map in Hin. simpl in Hin. apply in_map_iff in Hin. destruct Hin as [[[r' c''] v'] [E Hin]].
+    simpl in E. subst r'. apply filter_In in Hin. destruct Hin as [Hin Ec]. simpl in Ec. apply Z.eqb_eq in Ec. subst c''.
+    apply in_map_iff. exists (r, j, v'). split; [reflexivity|exact Hin].
+  Qed.
+
+  Theorem dot_ndarray_coo_den_proof m n_in p (a1 : Z -> Z -> V) (rows2 cols2 : list Z) (data2 : list V) :
+    length rows2 = length data2 -> length cols2 = length data2 ->
+    NoDup (combine rows2 cols2) -> Forall (fun r => 0 <= r < n_in) rows2 -> Forall (fun c => 0 <= c < p) cols2 ->
+    Forall (fun u => 0 <= fst (fst u) < m /\ 0 <= snd (fst u) < p)
+           (nd_coo_updates m a1 (combine (combine rows2 cols2) data2))
+    /\ forall i j, 0 <= i < m ->
+         dot_ndarray_coo V vzero vadd vmul m a1 rows2 cols2 data2 i j
+         = np_matmul2 V vzero vadd vmul n_in a1 (coo_cells_den V vzero rows2 cols2 data2) i j.
+  Proof.
+    intros Hr Hc Hnd Hrr Hcr. set (cs := combine (combine rows2 cols2) data2).
+    assert (Hfst : map fst cs = combine rows2 cols2) by (unfold cs; apply map_fst_combine; rewrite combine_length; lia).
+    split.
+    - apply Forall_forall. intros [[r c] v] Hin. unfold nd_coo_updates in Hin.
+      apply in_flat_map in Hin. destruct Hin as [i [Hi Hin]]. apply in_map_iff in Hin. destruct Hin as [[[r' c'] v'] [E Ht]].
+      inversion E; subst. simpl. apply zrange_In in Hi. split; [lia|].
+      assert (In (r', c) (combine rows2 cols2)) by (rewrite <- Hfst; apply in_map_iff; exists (r', c, v'); auto).
+      apply in_combine_r in H. rewrite Forall_forall in Hcr. apply Hcr. exact H.
+    - intros i j Hi. rewrite dot_ndarray_coo_updates, apply_updates_zero. fold cs. unfold nd_coo_updates.
+      rewrite proj_row_flat_map.
+      rewrite (flat_map_ext _ (fun x => if x =? i then map (fun t => (snd (fst t), vmul (a1 x (fst (fst t))) (snd t))) cs else [])).
+      2:{ intros x. destruct (Z.eqb_spec x i) as [->|Hne].
+          - apply (proj_row_same i cs (fun t => snd (fst t))).
+          - apply (proj_row_other i x cs (fun t => snd (fst t))). exact Hne. }
+      rewrite (flat_map_only (zrange m) i _ (zrange_NoDup m)).
+      assert (Hm : mem_z i (zrange m) = true) by (apply mem_z_In, zrange_In; exact Hi). rewrite Hm.
+      assert (E : ssum V vzero vadd j (map (fun t => (snd (fst t), vmul (a1 i (fst (fst t))) (snd t))) cs)
+                  = vsum V vzero vadd (map (fun rv => vmul (snd rv) (a1 i (fst rv))) (col_of j cs))).
+      { unfold ssum, col_of. clear -SR. induction cs as [|[[r c] v] cs IH]; simpl; [reflexivity|].
+        destruct (Z.eqb_spec c j); simpl; rewrite IH; [|reflexivity]. f_equal. apply (sr_mul_comm _ _ _ SR). }
+      rewrite E. rewrite (sparse_row_sum V vzero vadd vmul SR (a1 i) n_in (col_of j cs)).
+      + unfold np_matmul2, sum_over. apply vsum_map_ext_in. intros r _.
+        rewrite (sr_mul_comm _ _ _ SR). f_equal. unfold row_get, coo_cells_den. fold cs.
+        rewrite cell_lookup_col_of. reflexivity.
+      + apply col_of_keys_NoDup. rewrite Hfst. exact Hnd.
+      + apply Forall_forall. intros [r v] Hin. simpl. unfold col_of in Hin. apply in_map_iff in Hin.
+        destruct Hin as [[[r' c'] v'] [E' Hin]]. simpl in E'. inversion E'; subst r' v'.
+        apply filter_In in Hin. destruct Hin as [Hin _].
+        assert (In (r, c') (combine rows2 cols2)) by (rewrite <- Hfst; apply in_map_iff; exists (r, c', v); auto).
+        apply in_combine_l in H. rewrite Forall_forall in Hrr. apply Hrr. exact H.
+  Qed.
+End DenseKernels.
+
+(* ====================================================================== _dot_csr_ndarray_sparse *)
+Section CsrNdSparse.
+  Variable V : Type.
+  Variable vzero : V.
+  Variable vadd vmul : V -> V -> V.
+  Variable veqb : V -> V -> bool.
+  Hypothesis SR : comm_semiring vzero vadd vmul.
+  Hypothesis veqb_zero : forall x, veqb x vzero = true -> x = vzero.
+  Variable a : csr V.
+  Variable b : Z -> Z -> V.
+
+  Definition nzb (j : Z) (k : Z) : bool := negb (veqb (b k j) vzero).
+
+  Lemma cell_fold (row : list (Z * V)) j s f :
+    fold_left (fun (st : V * bool) kv =>
+                 (vadd (fst st) (vmul (snd kv) (b (fst kv) j)), snd st || negb (veqb (b (fst kv) j) vzero))) row (s, f)
+    = (fold_left (fun s kv => vadd s (vmul (snd kv) (b (fst kv) j))) row s, f || existsb (nzb j) (map fst row)).
+  Proof.
+    revert s f; induction row as [|kv row IH]; intros s f; simpl; [rewrite orb_false_r; reflexivity|].
+    rewrite IH. unfold nzb. rewrite orb_assoc. reflexivity.
+  Qed.
+
+  Lemma fold_vadd_vsum (row : list (Z * V)) j s :
+    fold_left (fun s kv => vadd s (vmul (snd kv) (b (fst kv) j))) row s
+    = vadd s (vsum V vzero vadd (map (fun kv => vmul (snd kv) (b (fst kv) j)) row)).
+  Proof.
+    revert s; induction row as [|kv row IH]; intros s; simpl.
+    - symmetry. apply (add_0_r V vzero vadd vmul SR).
+    - rewrite IH. rewrite (sr_add_assoc _ _ _ SR). reflexivity.
+  Qed.
+
+  Definition cell_val (i j : Z) : V := vsum V vzero vadd (map (fun kv => vmul (snd kv) (b (fst kv) j)) (row_pairs a i)).
+  Definition cell_nz (i j : Z) : bool := existsb (nzb j) (map fst (row_pairs a i)).
+
+  Lemma csr_nd_cell_spec i j : csr_nd_cell V vzero vadd vmul veqb a b i j = (cell_val i j, cell_nz i j).
+  Proof.
+    unfold csr_nd_cell. rewrite cell_fold, fold_vadd_vsum, (sr_add_0_l _ _ _ SR). reflexivity.
+  Qed.
+
+  Lemma cell_val_zero i j : cell_nz i j = false -> cell_val i j = vzero.
+  Proof.
+    unfold cell_nz, cell_val. induction (row_pairs a i) as [|kv row IH]; simpl; intros H; [reflexivity|].
+    apply orb_false_iff in H. destruct H as [H1 H2]. unfold nzb in H1. apply negb_false_iff in H1.
+    apply veqb_zero in H1. rewrite H1, (sr_mul_0_r _ _ _ SR), (sr_add_0_l _ _ _ SR). apply IH. exact H2.
+  Qed.
+
+  Definition sp_row (n_col i : Z) : list (Z * V) :=
+    flat_map (fun j => if cell_nz i j then [(j, cell_val i j)] else []) (zrange n_col).
+
+  Lemma csr_nd_row_spec n_col i : csr_nd_row V vzero vadd vmul veqb a b n_col i = sp_row n_col i.
+  Proof. unfold csr_nd_row, sp_row. apply flat_map_ext. intros j. rewrite csr_nd_cell_spec. reflexivity. Qed.
+
+  Lemma sp_row_keys n_col i : map fst (sp_row n_col i) = filter (cell_nz i) (zrange n_col).
+  Proof.
+    unfold sp_row. induction (zrange n_col) as [|j L IH]; simpl; [reflexivity|].
+    rewrite map_app, IH. destruct (cell_nz i j); reflexivity.
+  Qed.
+
+  Lemma sp_row_lookup (L : list Z) i j : NoDup L ->
+    row_lookup (flat_map (fun j => if cell_nz i j then [(j, cell_val i j)] else []) L) j
+    = if mem_z j L && cell_nz i j then Some (cell_val i j) else None.
+  Proof.
+    induction L as [|x L IH]; simpl; intros Hnd; [reflexivity|].
+    apply NoDup_cons_iff in Hnd. destruct Hnd as [Hx Hnd]. unfold mem_z in *. simpl.
+    destruct (Z.eqb_spec j x) as [->|Hne]; simpl.
+    - assert (Em : existsb (Z.eqb x) L = false).
+      { destruct (existsb (Z.eqb x) L) eqn:Em; [|reflexivity]. exfalso. apply Hx.
+        apply existsb_exists in Em. destruct Em as [y [Hy Ey]]. apply Z.eqb_eq in Ey. subst. exact Hy. }
+      rewrite Em in IH. simpl in IH. destruct (cell_nz i x) eqn:En; simpl.
+      + rewrite (IH Hnd), Z.eqb_refl. reflexivity.
+      + apply (IH Hnd).
+    - destruct (cell_nz i x); simpl.
+      + rewrite (IH Hnd). destruct (existsb (Z.eqb j) L && cell_nz i j); [reflexivity|].
+        destruct (Z.eqb_spec x j); [congruence|reflexivity].
+      + apply (IH Hnd).
+  Qed.
+
+  (* the pre-count *)
+  Lemma existsb_map {A B} (g : B -> bool) (f : A -> B) l : existsb g (map f l) = existsb (fun x => g (f x)) l.
+  Proof. induction l; simpl; congruence. Qed.
+
+  Lemma count_inner (P : Z -> bool) (L : list Z) nnz :
+    fold_left (fun nnz j => if P j then nnz + 1 else nnz) L nnz = nnz + Z.of_nat (length (filter P L)).
+  Proof.
+    revert nnz; induction L as [|j L IH]; intros nnz; simpl; [lia|].
+    rewrite IH. destruct (P j); simpl; lia.
+  Qed.
+
+  Hypothesis Ha1 : length (m_indices a) = length (m_data a).
+
+  Lemma csr_nd_count_fold n_col : forall (is : list Z) (rows : list (list Z)),
+    fold_left (fun (st : Z * list Z) i =>
+      let '(nnz, ptr) := st in
+      let cur_row := row_cols (m_indices a) (m_indptr a) i in
+      let nnz' := fold_left (fun nnz j => if existsb (fun k => negb (veqb (b k j) vzero)) cur_row then nnz + 1 else nnz)
+                            (zrange n_col) nnz in
+      (nnz', ptr ++ [nnz'])) is (Z.of_nat (length (concat rows)), tl (offs 0 rows))
+    = (Z.of_nat (length (concat (rows ++ map (fun i => filter (cell_nz i) (zrange n_col)) is))),
+       tl (offs 0 (rows ++ map (fun i => filter (cell_nz i) (zrange n_col)) is))).
+  Proof.
+    induction is as [|i is IH]; intros rows.
+    - simpl. rewrite app_nil_r. reflexivity.
+    - cbn [fold_left]. cbv zeta.
+      rewrite (count_inner (fun j => existsb (fun k => negb (veqb (b k j) vzero)) (row_cols (m_indices a) (m_indptr a) i))).
+      assert (Ef : filter (fun j => existsb (fun k => negb (veqb (b k j) vzero)) (row_cols (m_indices a) (m_indptr a) i)) (zrange n_col)
+                   = filter (cell_nz i) (zrange n_col)).
+      { apply filter_ext. intros j. unfold cell_nz. rewrite (row_pairs_keys V a i Ha1). reflexivity. }
+      rewrite Ef. set (K := filter (cell_nz i) (zrange n_col)).
+      replace (Z.of_nat (length (concat rows)) + Z.of_nat (length K)) with (Z.of_nat (length (concat (rows ++ [K]))))
+        by (rewrite concat_app; simpl; rewrite app_nil_r, app_length; lia).
+      replace (tl (offs 0 rows) ++ [Z.of_nat (length (concat (rows ++ [K])))]) with (tl (offs 0 (rows ++ [K]))).
+      2:{ rewrite offs_app. destruct (offs_head 0 rows) as [t Ht]. rewrite Ht. simpl.
+          f_equal. f_equal. rewrite concat_app. simpl. rewrite app_nil_r, app_length. lia. }
+      rewrite IH. simpl map. rewrite <- !app_assoc. reflexivity.
+  Qed.
+
+  Definition sp_rows (n_row n_col : Z) : list (list (Z * V)) := map (sp_row n_col) (zrange n_row).
+
+  Lemma sp_rows_lengths n_row n_col :
+    map (@length Z) (map (fun i => filter (cell_nz i) (zrange n_col)) (zrange n_row))
+    = map (@length (Z * V)) (sp_rows n_row n_col).
+  Proof.
+    unfold sp_rows. rewrite !map_map. apply map_ext. intros i. rewrite <- sp_row_keys, map_length. reflexivity.
+  Qed.
+
+  Lemma dot_csr_nd_sparse_ok n_row n_col :
+    dot_csr_ndarray_sparse V vzero vadd vmul veqb n_row n_col a b = KOk (csr_of_rows V (sp_rows n_row n_col)).
+  Proof.
+    unfold dot_csr_ndarray_sparse, csr_ndarray_count_nnz.
+    pose proof (csr_nd_count_fold n_col (zrange n_row) []) as E. cbn [concat length offs tl Z.of_nat app] in E.
+    rewrite E. clear E.
+    rewrite (flat_map_ext _ (sp_row n_col)) by (intros i; apply csr_nd_row_spec).
+    rewrite flat_map_concat_map. fold (sp_rows n_row n_col).
+    rewrite (length_concat_lengths _ _ (sp_rows_lengths n_row n_col)), Z.ltb_irrefl.
+    unfold csr_of_rows. f_equal. f_equal.
+    rewrite (offs_length_ext _ _ 0 (sp_rows_lengths n_row n_col)).
+    destruct (offs_head 0 (sp_rows n_row n_col)) as [t Ht]. rewrite Ht. reflexivity.
+  Qed.
+
+  Theorem csr_ndarray_sparse_proof n_row n_in n_col : csr_wfb n_row n_in a = true -> 0 <= n_col ->
+    exists r, dot_csr_ndarray_sparse V vzero vadd vmul veqb n_row n_col a b = KOk r
+      /\ Z.of_nat (length (m_data r)) = fst (csr_ndarray_count_nnz V vzero veqb n_row n_col (m_indices a) (m_indptr a) b)
+      /\ csr_wfb n_row n_col r = true
+      /\ forall i j, 0 <= i < n_row -> 0 <= j < n_col ->
+           csr_den V vzero r i j = np_matmul2 V vzero vadd vmul n_in (csr_den V vzero a) b i j.
+  Proof.
+    intros Ha Hn. destruct (csr_wfb_facts V _ _ _ Ha) as [_ [Hnr [_ [_ [Ha5 Ha6]]]]].
+    exists (csr_of_rows V (sp_rows n_row n_col)). split; [apply dot_csr_nd_sparse_ok|]. split; [|split].
+    - unfold csr_ndarray_count_nnz.
+      pose proof (csr_nd_count_fold n_col (zrange n_row) []) as E. cbn [concat length offs tl Z.of_nat app] in E.
+      rewrite E. simpl. rewrite map_length. f_equal. symmetry. apply length_concat_lengths, sp_rows_lengths.
+    - apply csr_of_rows_wf; [unfold sp_rows; rewrite map_length; apply zrange_length; exact Hnr|exact Hn|].
+      intros r Hr. unfold sp_rows in Hr. apply in_map_iff in Hr. destruct Hr as [i [<- _]].
+      rewrite sp_row_keys. split.
+      + apply SS_lt_strictly_increasing. apply SS_filter. apply zrange_SS.
+      + apply Forall_forall. intros c Hc. apply filter_In in Hc. destruct Hc as [Hc _]. apply zrange_In in Hc. exact Hc.
+    - intros i j Hi Hj. unfold csr_den at 1.
+      replace i with (Z.of_nat (Z.to_nat i)) at 1 by lia.
+      rewrite csr_of_rows_row by (unfold sp_rows; rewrite map_length; unfold zrange; rewrite map_length, seq_length; lia).
+      unfold sp_rows. rewrite (nth_indep _ [] (sp_row n_col 0))
+        by (rewrite map_length; unfold zrange; rewrite map_length, seq_length; lia).
+      rewrite map_nth, nth_zrange by assumption.
+      unfold row_get, sp_row. rewrite sp_row_lookup by apply zrange_NoDup.
+      assert (Hm : mem_z j (zrange n_col) = true) by (apply mem_z_In, zrange_In; exact Hj). rewrite Hm. simpl.
+      assert (Hv : (if cell_nz i j then cell_val i j else vzero) = cell_val i j).
+      { destruct (cell_nz i j) eqn:En; [reflexivity|]. symmetry. apply cell_val_zero. exact En. }
+      transitivity (cell_val i j); [destruct (cell_nz i j); [reflexivity|exact Hv]|].
+      unfold cell_val.
+      assert (Hra : Forall (fun jav => 0 <= fst jav < n_in) (row_pairs a i)).
+      { apply Forall_forall. intros jav Hin. rewrite Forall_forall in Ha5. apply Ha5. eapply row_pairs_in_indices. exact Hin. }
+      assert (Hnd : NoDup (map fst (row_pairs a i))).
+      { rewrite row_pairs_keys by assumption. apply SS_lt_NoDup, strictly_increasing_SS, Ha6. exact Hi. }
+      rewrite (sparse_row_sum V vzero vadd vmul SR (fun c => b c j) n_in _ Hnd Hra). reflexivity.
+  Qed.
+End CsrNdSparse.
+
+Lemma csr_ndarray_sparse_full (V : Type) (vzero : V) (vadd vmul : V -> V -> V) (veqb : V -> V -> bool) :
+  comm_semiring vzero vadd vmul -> (forall x, veqb x vzero = true -> x = vzero) ->
+  forall (a : csr V) (b : Z -> Z -> V) (n_row n_in n_col : Z), csr_wfb n_row n_in a = true -> 0 <= n_col ->
+    exists r, dot_csr_ndarray_sparse V vzero vadd vmul veqb n_row n_col a b = KOk r
+      /\ Z.of_nat (length (m_data r)) = fst (csr_ndarray_count_nnz V vzero veqb n_row n_col (m_indices a) (m_indptr a) b)
+      /\ csr_wfb n_row n_col r = true
+      /\ forall i j, 0 <= i < n_row -> 0 <= j < n_col ->
+           csr_den V vzero r i j = np_matmul2 V vzero vadd vmul n_in (csr_den V vzero a) b i j.
+Proof.
+  intros SR Hz a b n_row n_in n_col Ha Hn. destruct (csr_wfb_facts V _ _ _ Ha) as [Ha1 _].
+  exact (csr_ndarray_sparse_proof V vzero vadd vmul veqb SR Hz a b Ha1 n_row n_in n_col Ha Hn).
+Qed.
+
+(* ====================================================================== _dot_coo_ndarray_type_sparse *)
+Definition cell_lt {V} (c1 c2 : Z * Z * V) : Prop :=
+  fst (fst c1) < fst (fst c2) \/ (fst (fst c1) = fst (fst c2) /\ snd (fst c1) < snd (fst c2)).
+
+Section CooNdSparse.
+  Variable V : Type.
+  Variable vzero : V.
+  Variable vadd vmul : V -> V -> V.
+  Variable veqb : V -> V -> bool.
+  Hypothesis SR : comm_semiring vzero vadd vmul.
+  Hypothesis veqb_zero : forall x, veqb x vzero = true -> x = vzero.
+  Variable rows cols : list Z.
+  Variable data : list V.
+  Variable a2 : Z -> Z -> V.
+
+  Let n := Z.of_nat (length data).
+  Notation AF := (acc_from V vzero vadd vmul rows cols data a2).
+  Notation RL := (run_len V rows data).
+  Definition total (i j : Z) : V := AF (length data) 0 i j vzero.
+
+  Lemma scan_sum_spec m row j cur acc :
+    scan_sum V vzero vadd vmul m rows cols data a2 row j cur acc
+    = (cur + Z.of_nat (RL m row cur), AF (RL m row cur) cur row j acc).
+  Proof.
+    revert cur acc; induction m as [|m IH]; intros cur acc; simpl; [f_equal; lia|].
+    fold n. destruct ((cur <? n) && (znth rows cur 0 =? row)) eqn:E; simpl.
+    - rewrite IH. apply andb_true_iff in E. destruct E as [_ E]. rewrite E. unfold term. f_equal. lia.
+    - f_equal. lia.
+  Qed.
+
+  Lemma AF_none m d i j s : (forall t, d <= t < d + Z.of_nat m -> znth rows t 0 <> i) -> AF m d i j s = s.
+  Proof.
+    revert d s; induction m as [|m IH]; intros d s H; simpl; [reflexivity|].
+    destruct (Z.eqb_spec (znth rows d 0) i) as [E|_]; [exfalso; apply (H d); [lia|exact E]|].
+    apply IH. intros t Ht. apply H. lia.
+  Qed.
+
+  Lemma run_rows m r d t : d <= t < d + Z.of_nat (RL m r d) -> znth rows t 0 = r.
+  Proof.
+    revert d; induction m as [|m IH]; intros d Ht; simpl in Ht; [lia|]. fold n in Ht.
+    destruct ((d <? n) && (znth rows d 0 =? r)) eqn:E; simpl in Ht; [|lia].
+    apply andb_true_iff in E. destruct E as [_ E]. apply Z.eqb_eq in E.
+    destruct (Z.eq_dec t d) as [->|Hne]; [exact E|]. apply (IH (d + 1)). lia.
+  Qed.
+
+  Lemma run_len_stop m r d : 0 <= d <= n -> Z.of_nat m = n - d ->
+    d + Z.of_nat (RL m r d) = n \/ znth rows (d + Z.of_nat (RL m r d)) 0 <> r.
+  Proof.
+    revert d; induction m as [|m IH]; intros d Hd Hm; simpl; [left; lia|]. fold n.
+    destruct (Z.ltb_spec d n); simpl; [|lia].
+    destruct (Z.eqb_spec (znth rows d 0) r); simpl.
+    - destruct (IH (d + 1)) as [H1|H1]; [lia|lia| |].
+      + left. lia.
+      + right. replace (d + Z.pos (Pos.of_succ_nat (RL m r (d + 1)))) with (d + 1 + Z.of_nat (RL m r (d + 1))) by lia. exact H1.
+    - right. rewrite Z.add_0_r. assumption.
+  Qed.
+
+  Hypothesis Hsorted : forall s t, 0 <= s <= t -> t < n -> znth rows s 0 <= znth rows t 0.
+
+  Definition occurs (d i : Z) : bool := existsb (fun t => znth rows t 0 =? i) (zrange d).
+
+  Lemma occurs_spec d i : occurs d i = true <-> exists t, 0 <= t < d /\ znth rows t 0 = i.
+  Proof.
+    unfold occurs. rewrite existsb_exists. split.
+    - intros [t [Ht E]]. apply zrange_In in Ht. apply Z.eqb_eq in E. eauto.
+    - intros [t [Ht E]]. exists t. split; [apply zrange_In; exact Ht|apply Z.eqb_eq; exact E].
+  Qed.
+
+  Lemma total_not_occurs i j : occurs n i = false -> total i j = vzero.
+  Proof.
+    intros H. unfold total. apply AF_none. intros t Ht E.
+    assert (occurs n i = true) by (apply occurs_spec; exists t; split; [unfold n; lia|exact E]). congruence.
+  Qed.
+
+  (* at a run boundary d the run sum is the whole contribution of that row *)
+  Lemma run_total d j : 0 <= d < n -> (forall t, 0 <= t < d -> znth rows t 0 < znth rows d 0) ->
+    let r := znth rows d 0 in let L := RL (Z.to_nat (n - d)) r d in
+    AF L d r j vzero = total r j.
+  Proof.
+    intros Hd Hb r L. unfold total.
+    assert (HLb : d + Z.of_nat L <= n) by (unfold L; apply run_len_bound; unfold n in *; lia).
+    replace (length data) with (Z.to_nat d + (L + Z.to_nat (n - d - Z.of_nat L)))%nat by (unfold n in *; lia).
+    rewrite acc_from_app, acc_from_app. rewrite (AF_none (Z.to_nat d) 0 r j vzero).
+    2:{ intros t Ht E. specialize (Hb t ltac:(lia)). fold r in Hb. lia. }
+    replace (0 + Z.of_nat (Z.to_nat d)) with d by lia.
+    symmetry. apply AF_none.
+    intros t Ht E.
+    destruct (run_len_stop (Z.to_nat (n - d)) r d ltac:(lia) ltac:(lia)) as [H1|H1]; fold L in H1; [lia|].
+    set (e := d + Z.of_nat L) in *.
+    assert (Hge : r <= znth rows e 0).
+    { unfold r. apply Hsorted; unfold e; lia. }
+    assert (Het : znth rows e 0 <= znth rows t 0) by (apply Hsorted; unfold e in *; lia).
+    lia.
+  Qed.
+
+  (* the cells appended for one run *)
+  Definition run_cells (r : Z) (S : Z -> V) (js : list Z) : list (Z * Z * V) :=
+    flat_map (fun j => if negb (veqb (S j) vzero) then [(r, j, S j)] else []) js.
+
+  Lemma cns_for_spec out_cols r d cur out :
+    let L := RL (Z.to_nat (n - d)) r d in
+    cns_for V vzero vadd vmul veqb rows cols data a2 out_cols r d cur out
+    = ((if zrange out_cols then cur else d + Z.of_nat L), out ++ run_cells r (fun j => AF L d r j vzero) (zrange out_cols)).
+  Proof.
+    intros L. unfold cns_for. fold n. generalize (zrange out_cols) as js. intros js. revert cur out.
+    induction js as [|j js IH]; intros cur out; simpl; [rewrite app_nil_r; reflexivity|].
+    rewrite scan_sum_spec. fold L. rewrite IH. f_equal.
+    - destruct js; reflexivity.
+    - simpl. destruct (negb (veqb (AF L d r j vzero) vzero)); simpl; [rewrite <- app_assoc|]; reflexivity.
+  Qed.
+
+  Lemma run_cells_lookup r S (js : list Z) i j : NoDup js ->
+    cell_lookup V (run_cells r S js) i j
+    = if (i =? r) && mem_z j js && negb (veqb (S j) vzero) then Some (S j) else None.
+  Proof.
+    unfold run_cells. induction js as [|x js IH]; simpl; intros Hnd; [rewrite andb_false_r; reflexivity|].
+    apply NoDup_cons_iff in Hnd. destruct Hnd as [Hx Hnd]. unfold mem_z in *. simpl.
+    destruct (negb (veqb (S x) vzero)) eqn:En; simpl.
+    - rewrite (IH Hnd). destruct (Z.eqb_spec i r) as [->|Hne]; simpl.
+      + rewrite Z.eqb_refl. simpl. destruct (Z.eqb_spec j x) as [->|Hnj]; simpl.
+        * assert (Em : existsb (Z.eqb x) js = false).
+          { destruct (existsb (Z.eqb x) js) eqn:Em; [|reflexivity]. exfalso. apply Hx.
+            apply existsb_exists in Em. destruct Em as [y [Hy Ey]]. apply Z.eqb_eq in Ey. subst. exact Hy. }
+          rewrite Em. simpl. rewrite Z.eqb_refl, En. reflexivity.
+        * destruct (existsb (Z.eqb j) js && negb (veqb (S j) vzero)); [reflexivity|].
+          destruct (Z.eqb_spec x j); [congruence|reflexivity].
+      + destruct (Z.eqb_spec r i); [congruence|reflexivity].
+    - rewrite (IH Hnd). destruct (Z.eqb_spec i r) as [->|Hne]; simpl; [|reflexivity].
+      destruct (Z.eqb_spec j x) as [->|Hnj]; simpl; [|reflexivity].
+      assert (Em : existsb (Z.eqb x) js = false).
+      { destruct (existsb (Z.eqb x) js) eqn:Em; [|reflexivity]. exfalso. apply Hx.
+        apply existsb_exists in Em. destruct Em as [y [Hy Ey]]. apply Z.eqb_eq in Ey. subst. exact Hy. }
+      rewrite Em. simpl. apply negb_false_iff in En. rewrite En. reflexivity.
+  Qed.
+
+  Definition cden (out : list (Z * Z * V)) (i j : Z) : V :=
+    match cell_lookup V out i j with Some v => v | None => vzero end.
+
+  Record sinv (out_cols d : Z) (out : list (Z * Z * V)) : Prop := {
+    sinv_d : 0 <= d <= n;
+    sinv_b : forall t t', 0 <= t < d -> d <= t' < n -> znth rows t 0 < znth rows t' 0;
+    sinv_den : forall i j, 0 <= j < out_cols -> cden out i j = if occurs d i then total i j else vzero;
+    sinv_sorted : StronglySorted cell_lt out;
+    sinv_rows : Forall (fun c => occurs d (fst (fst c)) = true /\ 0 <= snd (fst c) < out_cols) out
+  }.
+
+  Lemma run_cells_sorted r S js : StronglySorted Z.lt js -> StronglySorted cell_lt (run_cells r S js).
+  Proof.
+    unfold run_cells. induction 1 as [|j js Hs IH Hall]; simpl; [constructor|].
+    destruct (negb (veqb (S j) vzero)); simpl; [|exact IH].
+    constructor; [exact IH|]. apply Forall_forall. intros c Hc. apply in_flat_map in Hc.
+    destruct Hc as [j' [Hj' Hc]]. destruct (negb (veqb (S j') vzero)); [|contradiction].
+    destruct Hc as [<-|[]]. right. simpl. split; [reflexivity|]. rewrite Forall_forall in Hall. apply Hall. exact Hj'.
+  Qed.
+
+  Lemma occurs_mono d d' i : d <= d' -> occurs d i = true -> occurs d' i = true.
+  Proof. intros H Ho. apply occurs_spec in Ho. destruct Ho as [t [Ht E]]. apply occurs_spec. exists t. split; [lia|exact E]. Qed.
+
+  Lemma cns_while_spec fuel out_cols : 0 < out_cols -> forall d out,
+    (Z.to_nat (n - d) <= fuel)%nat -> sinv out_cols d out ->
+    exists o, cns_while V vzero vadd vmul veqb fuel rows cols data a2 out_cols d out = KOk o /\ sinv out_cols n o.
+  Proof.
+    intros Hc. induction fuel as [|f IH]; intros d out Hf Hinv; pose proof (sinv_d _ _ _ Hinv) as Hd.
+    - simpl. fold n. destruct (Z.ltb_spec d n); [lia|]. simpl. exists out. split; [reflexivity|].
+      replace n with d by lia. exact Hinv.
+    - simpl. fold n. destruct (Z.ltb_spec d n); simpl.
+      2:{ exists out. split; [reflexivity|]. replace n with d by lia. exact Hinv. }
+      destruct (Z.ltb_spec 0 out_cols); [|lia]. simpl.
+      set (r := znth rows d 0). rewrite cns_for_spec. fold n.
+      set (L := RL (Z.to_nat (n - d)) r d).
+      assert (Hne : zrange out_cols <> []).
+      { intros E0. assert (In 0 (zrange out_cols)) by (apply zrange_In; lia). rewrite E0 in H1. contradiction. }
+      destruct (zrange out_cols) as [|z0 zs] eqn:Ez; [congruence|]. rewrite <- Ez.
+      assert (HL : (0 < L)%nat) by (apply run_len_pos; [lia|fold n; assumption]).
+      assert (HLb : d + Z.of_nat L <= n) by (apply run_len_bound; fold n; lia).
+      assert (Hbd : forall t, 0 <= t < d -> znth rows t 0 < r) by (intros t Ht; apply (sinv_b _ _ _ Hinv); lia).
+      assert (Hocc_r : occurs d r = false).
+      { destruct (occurs d r) eqn:E; [|reflexivity]. apply occurs_spec in E. destruct E as [t [Ht E]]. specialize (Hbd t Ht). lia. }
+      assert (Htot : forall j, AF L d r j vzero = total r j) by (intros j; apply (run_total d j ltac:(lia) Hbd)).
+      assert (Hocc' : forall i, occurs (d + Z.of_nat L) i = occurs d i || (i =? r)).
+      { intros i. apply eq_true_iff_eq. rewrite orb_true_iff, !occurs_spec, Z.eqb_eq. split.
+        - intros [t [Ht E]]. destruct (Z.lt_ge_cases t d); [left; exists t; split; [lia|exact E]|].
+          right. rewrite <- E. apply (run_rows (Z.to_nat (n - d)) r d t). fold L. lia.
+        - intros [[t [Ht E]]| ->]; [exists t; split; [lia|exact E]|]. exists d. split; [lia|reflexivity]. }
+      apply IH; [lia|]. constructor.
+      + lia.
+      + intros t t' Ht Ht'.
+        assert (Hle : znth rows t 0 <= r).
+        { destruct (Z.lt_ge_cases t d); [specialize (Hbd t ltac:(lia)); lia|].
+          rewrite (run_rows (Z.to_nat (n - d)) r d t) by (fold L; lia). lia. }
+        destruct (run_len_stop (Z.to_nat (n - d)) r d ltac:(lia) ltac:(lia)) as [H1|H1]; fold L in H1; [lia|].
+        assert (r <= znth rows (d + Z.of_nat L) 0) by (unfold r; apply Hsorted; lia).
+        assert (znth rows (d + Z.of_nat L) 0 <= znth rows t' 0) by (apply Hsorted; lia). lia.
+      + intros i j Hj. unfold cden. rewrite cell_lookup_app, run_cells_lookup by apply zrange_NoDup.
+        assert (Hm : mem_z j (zrange out_cols) = true) by (apply mem_z_In, zrange_In; exact Hj).
+        rewrite Hm, andb_true_r, Hocc'. pose proof (sinv_den _ _ _ Hinv i j Hj) as Hden. unfold cden in Hden.
+        destruct (Z.eqb_spec i r) as [->|Hne']; simpl.
+        * rewrite Hocc_r in *. simpl. destruct (veqb (AF L d r j vzero) vzero) eqn:Ez'; simpl.
+          -- rewrite Hden. apply veqb_zero in Ez'. rewrite <- Htot. symmetry. exact Ez'.
+          -- apply Htot.
+        * rewrite orb_false_r. exact Hden.
+      + apply SS_app; [apply (sinv_sorted _ _ _ Hinv)|apply run_cells_sorted, zrange_SS|].
+        intros c1 c2 H1 H2. left. pose proof (sinv_rows _ _ _ Hinv) as Hr. rewrite Forall_forall in Hr.
+        destruct (Hr _ H1) as [Ho _]. apply occurs_spec in Ho. destruct Ho as [t [Ht E]].
+        unfold run_cells in H2. apply in_flat_map in H2. destruct H2 as [j' [_ H2]].
+        destruct (negb (veqb (AF L d r j' vzero) vzero)); [|contradiction]. destruct H2 as [<-|[]]. simpl.
+        rewrite <- E. apply Hbd. exact Ht.
+      + apply Forall_app. split.
+        * eapply Forall_impl; [|apply (sinv_rows _ _ _ Hinv)]. intros c [Ho Hcr]. split; [|exact Hcr].
+          apply (occurs_mono d); [lia|exact Ho].
+        * apply Forall_forall. intros c Hcc. unfold run_cells in Hcc. apply in_flat_map in Hcc. destruct Hcc as [j' [Hj' Hcc]].
+          destruct (negb (veqb (AF L d r j' vzero) vzero)); [|contradiction]. destruct Hcc as [<-|[]]. simpl.
+          split; [rewrite Hocc', Z.eqb_refl; apply orb_true_r|apply zrange_In; exact Hj'].
+  Qed.
+End CooNdSparse.
+
+Theorem dot_coo_ndarray_sparse_proof (V : Type) (vzero : V) (vadd vmul : V -> V -> V) (veqb : V -> V -> bool) :
+  comm_semiring vzero vadd vmul -> (forall x, veqb x vzero = true -> x = vzero) ->
+  forall (a2 : Z -> Z -> V) (rows cols : list Z) (data : list V) (n_in out_cols : Z) (fuel : nat),
+    length rows = length data -> length cols = length data ->
+    NoDup (combine rows cols) -> Forall (fun c => 0 <= c < n_in) cols ->
+    (forall s t, 0 <= s <= t -> t < Z.of_nat (length data) -> znth rows s 0 <= znth rows t 0) ->
+    (length data <= fuel)%nat ->
+    exists o, dot_coo_ndarray_sparse V vzero vadd vmul veqb fuel rows cols data a2 out_cols = KOk o
+      /\ StronglySorted cell_lt o
+      /\ Forall (fun c => 0 <= snd (fst c) < out_cols) o
+      /\ forall i j, 0 <= j < out_cols ->
+           cden V vzero o i j
+           = np_matmul2 V vzero vadd vmul n_in (coo_cells_den V vzero rows cols data) (fun c j => a2 j c) i j.
+Proof.
+  intros SR Hz a2 rows cols data n_in out_cols fuel Hr Hc Hnd Hrange Hsorted Hf.
+  unfold dot_coo_ndarray_sparse.
+  destruct (Z.ltb_spec 0 out_cols) as [Hpos|Hneg].
+  - destruct (cns_while_spec V vzero vadd vmul veqb Hz rows cols data a2 Hsorted fuel out_cols Hpos 0 []) as [o [E Ho]].
+    + lia.
+    + constructor; [lia|intros; lia| |constructor|constructor].
+      intros i j _. reflexivity.
+    + exists o. split; [exact E|]. split; [apply (sinv_sorted _ _ _ _ _ _ _ _ _ _ _ Ho)|]. split.
+      * eapply Forall_impl; [|apply (sinv_rows _ _ _ _ _ _ _ _ _ _ _ Ho)]. intros c [_ H]. exact H.
+      * intros i j Hj. rewrite (sinv_den _ _ _ _ _ _ _ _ _ _ _ Ho i j Hj).
+        assert (Ht : (if occurs rows (Z.of_nat (length data)) i then total V vzero vadd vmul rows cols data a2 i j else vzero)
+                     = total V vzero vadd vmul rows cols data a2 i j).
+        { destruct (occurs rows (Z.of_nat (length data)) i) eqn:Eo; [reflexivity|]. symmetry.
+          apply total_not_occurs. exact Eo. }
+        rewrite Ht. unfold total.
+        pose proof (acc_from_cells V vzero vadd vmul a2 rows cols data i j Hr Hc [] [] [] vzero eq_refl eq_refl) as Ha. simpl in Ha.
+        rewrite Ha, (acc_list_vsum V vzero vadd vmul SR), (sr_add_0_l _ _ _ SR).
+        set (cs := combine (combine rows cols) data).
+        assert (Hfst : map fst cs = combine rows cols) by (unfold cs; apply map_fst_combine; rewrite combine_length; lia).
+        rewrite (sparse_row_sum V vzero vadd vmul SR (a2 j) n_in (row_of V i cs)).
+        -- unfold np_matmul2, sum_over. f_equal. apply map_ext. intros c. f_equal.
+           unfold row_get, coo_cells_den. fold cs. rewrite cell_lookup_row_of. reflexivity.
+        -- apply row_of_keys_NoDup. rewrite Hfst. exact Hnd.
+        -- apply Forall_forall. intros [c v] Hin. simpl. unfold row_of in Hin. apply in_map_iff in Hin.
+           destruct Hin as [[[r' c'] v'] [E' Hin]]. simpl in E'. inversion E'; subst c' v'.
+           apply filter_In in Hin. destruct Hin as [Hin _].
+           assert (In (r', c) (combine rows cols)) by (rewrite <- Hfst; apply in_map_iff; exists (r', c, v); auto).
+           apply in_combine_r in H. rewrite Forall_forall in Hrange. apply Hrange. exact H.
+  - exists []. split.
+    + destruct fuel; simpl; destruct (Z.ltb_spec 0 out_cols); try lia; rewrite andb_false_r; reflexivity.
+    + split; [constructor|]. split; [constructor|]. intros i j Hj. lia.
+Qed.
+
+(* ====================================================================== _dot_ndarray_coo_type_sparse *)
+Lemma cell_lookup_none_iff {V} (cs : list (Z * Z * V)) i j :
+  cell_lookup V cs i j = None <-> (forall x, In x cs -> ~ (fst (fst x) = i /\ snd (fst x) = j)).
+Proof.
+  induction cs as [|[[r c] v] cs IH]; simpl; [split; [intros _ x []|reflexivity]|].
+  destruct (cell_lookup V cs i j) eqn:E.
+  - split; [discriminate|]. intros H. exfalso. assert (Hn : None = Some v0); [|discriminate].
+    rewrite <- (proj2 IH); [reflexivity|]. intros x Hx. apply H. right. exact Hx.
+  - destruct (Z.eqb_spec r i); destruct (Z.eqb_spec c j); simpl.
+    + split; [discriminate|]. intros H. exfalso. apply (H (r, c, v)); [left; reflexivity|simpl; auto].
+    + split; [|reflexivity]. intros _ x [<-|Hx]; [simpl; lia|apply (proj1 IH eq_refl); exact Hx].
+    + split; [|reflexivity]. intros _ x [<-|Hx]; [simpl; lia|apply (proj1 IH eq_refl); exact Hx].
+    + split; [|reflexivity]. intros _ x [<-|Hx]; [simpl; lia|apply (proj1 IH eq_refl); exact Hx].
+Qed.
+
+Section NdCooSparse.
+  Variable V : Type.
+  Variable vzero : V.
+  Variable vadd vmul : V -> V -> V.
+  Variable veqb : V -> V -> bool.
+  Hypothesis SR : comm_semiring vzero vadd vmul.
+  Hypothesis veqb_zero : forall x, veqb x vzero = true -> x = vzero.
+  Hypothesis veqb_refl0 : veqb vzero vzero = true.
+  Variable a1 : Z -> Z -> V.
+  Variable p : Z.
+
+  Definition ccol (t : Z * Z * V) : Z := fst (fst t).
+  Definition cle (t t' : Z * Z * V) : Prop := ccol t <= ccol t'.
+
+  (* what data_curr holds for column j after the cells pre *)
+  Definition gsum (i : Z) (pre : list (Z * Z * V)) (j : Z) : V :=
+    fold_left (fun s t => if ccol t =? j then vadd s (vmul (a1 i (snd (fst t))) (snd t)) else s) pre vzero.
+
+  Lemma gsum_snoc i pre t j :
+    gsum i (pre ++ [t]) j = if ccol t =? j then vadd (gsum i pre j) (vmul (a1 i (snd (fst t))) (snd t)) else gsum i pre j.
+  Proof. unfold gsum. rewrite fold_left_app. reflexivity. Qed.
+
+  Lemma gsum_none i pre j : (forall t, In t pre -> ccol t <> j) -> gsum i pre j = vzero.
+  Proof.
+    unfold gsum. intros H. assert (G : forall s, fold_left (fun s t => if ccol t =? j then vadd s (vmul (a1 i (snd (fst t))) (snd t)) else s) pre s = s).
+    { induction pre as [|t pre IH]; intros s; simpl; [reflexivity|].
+      destruct (Z.eqb_spec (ccol t) j); [exfalso; apply (H t); [left; reflexivity|assumption]|].
+      apply IH. intros t' Ht'. apply H. right. exact Ht'. }
+    apply G.
+  Qed.
+
+  Lemma gsum_nonzero_in i pre j : gsum i pre j <> vzero -> exists t, In t pre /\ ccol t = j.
+  Proof.
+    unfold gsum.
+    assert (G : forall s, fold_left (fun s t => if ccol t =? j then vadd s (vmul (a1 i (snd (fst t))) (snd t)) else s) pre s <> s ->
+                exists t, In t pre /\ ccol t = j).
+    { induction pre as [|t pre IH]; intros s H; simpl in H; [congruence|].
+      destruct (Z.eqb_spec (ccol t) j) as [E|_]; [exists t; split; [left; reflexivity|exact E]|].
+      destruct (IH s H) as [t' [Ht' E']]. exists t'. split; [right; exact Ht'|exact E']. }
+    apply G.
+  Qed.
+
+  Record ninv (i : Z) (pre : list (Z * Z * V)) (dc : V) (cc : Z) (new : list (Z * Z * V)) : Prop := {
+    ni_dc : dc = gsum i pre cc;
+    ni_cc : 0 <= cc;
+    ni_pre : forall t, In t pre -> ccol t <= cc;
+    ni_new : Forall (fun x => fst (fst x) = i /\ 0 <= snd (fst x) < cc /\ snd (fst x) < p) new;
+    ni_sorted : StronglySorted cell_lt new;
+    ni_den : forall j, j < cc -> cden V vzero new i j = gsum i pre j
+  }.
+
+  Lemma cden_snoc new i cc dc j :
+    cden V vzero (new ++ [(i, cc, dc)]) i j = if j =? cc then dc else cden V vzero new i j.
+  Proof.
+    unfold cden. rewrite cell_lookup_app. simpl. rewrite Z.eqb_refl. simpl.
+    destruct (Z.eqb_spec cc j) as [->|Hne]; [rewrite Z.eqb_refl; reflexivity|].
+    destruct (Z.eqb_spec j cc); [congruence|reflexivity].
+  Qed.
+
+  Lemma ncs_fold i out0 : forall suf, StronglySorted cle suf -> forall pre dc cc new,
+    Forall (fun t => cc <= ccol t) suf -> Forall (fun t => ccol t < p) pre -> Forall (fun t => ccol t < p) suf ->
+    ninv i pre dc cc new ->
+    exists dc' cc' new',
+      fold_left (ncs_step V vzero vadd vmul veqb a1 i) suf (dc, cc, out0 ++ new) = (dc', cc', out0 ++ new')
+      /\ ninv i (pre ++ suf) dc' cc' new'.
+  Proof.
+    induction 1 as [|t suf Hs IH Hall]; intros pre dc cc new Hge Hpp Hsp Hinv.
+    - exists dc, cc, new. simpl. rewrite app_nil_r. auto.
+    - pose proof (Forall_inv Hge) as Hct. pose proof (Forall_inv_tail Hge) as Hge'. simpl in Hct.
+      pose proof (Forall_inv Hsp) as Htp. pose proof (Forall_inv_tail Hsp) as Hsp'. simpl in Htp.
+      assert (Hpp' : Forall (fun t => ccol t < p) (pre ++ [t])) by (apply Forall_app; split; [exact Hpp|constructor; [exact Htp|constructor]]).
+      destruct Hinv as [Hdc Hcc Hpre Hnew Hsorted Hden].
+      cbn [fold_left]. unfold ncs_step at 2. fold (ccol t).
+      replace (pre ++ t :: suf) with ((pre ++ [t]) ++ suf) by (rewrite <- app_assoc; reflexivity).
+      destruct (Z.eqb_spec (ccol t) cc) as [E|Hne]; simpl negb; cbv iota.
+      + (* same column *)
+        apply IH; [|exact Hpp'|exact Hsp'|].
+        * eapply Forall_impl; [|exact Hall]. unfold cle. intros; lia.
+        * constructor; auto.
+          -- rewrite gsum_snoc, E, Z.eqb_refl, <- Hdc. reflexivity.
+          -- intros t' Ht'. apply in_app_or in Ht'. destruct Ht' as [?|[<-|[]]]; [auto|lia].
+          -- intros j Hj. rewrite gsum_snoc. destruct (Z.eqb_spec (ccol t) j); [lia|]. apply Hden. exact Hj.
+      + (* a new column c > cc *)
+        assert (Hlt : cc < ccol t) by lia.
+        assert (Hnone : forall j, cc < j -> gsum i pre j = vzero).
+        { intros j Hj. apply gsum_none. intros t' Ht'. specialize (Hpre t' Ht'). lia. }
+        destruct (veqb dc vzero) eqn:Ez; simpl negb; cbv iota.
+        * apply veqb_zero in Ez.
+          apply IH; [|exact Hpp'|exact Hsp'|].
+          -- eapply Forall_impl; [|exact Hall]. unfold cle. intros; lia.
+          -- constructor.
+             ++ rewrite gsum_snoc, Z.eqb_refl, (Hnone (ccol t) Hlt), Ez. reflexivity.
+             ++ lia.
+             ++ intros t' Ht'. apply in_app_or in Ht'. destruct Ht' as [Ht'|[<-|[]]]; [specialize (Hpre t' Ht'); lia|lia].
+             ++ eapply Forall_impl; [|exact Hnew]. simpl. intros x [? [? ?]]. split; [assumption|split; [lia|assumption]].
+             ++ exact Hsorted.
+             ++ intros j Hj. rewrite gsum_snoc. destruct (Z.eqb_spec (ccol t) j); [lia|].
+                destruct (Z.lt_ge_cases j cc) as [Hjc|Hjc]; [apply Hden; exact Hjc|].
+                destruct (Z.eq_dec j cc) as [->|Hne'].
+                ** rewrite <- Hdc, Ez. unfold cden. rewrite (proj2 (cell_lookup_none_iff _ _ _)); [reflexivity|].
+                   rewrite Forall_forall in Hnew. intros x Hx [_ Hq]. destruct (Hnew x Hx) as [_ [Hb _]]. lia.
+                ** rewrite (Hnone j ltac:(lia)). unfold cden. rewrite (proj2 (cell_lookup_none_iff _ _ _)); [reflexivity|].
+                   rewrite Forall_forall in Hnew. intros x Hx [_ Hq]. destruct (Hnew x Hx) as [_ [Hb _]]. lia.
+        * replace ((out0 ++ new) ++ [(i, cc, dc)]) with (out0 ++ (new ++ [(i, cc, dc)])) by (rewrite app_assoc; reflexivity).
+          assert (Hccp : cc < p).
+          { assert (Hnz : gsum i pre cc <> vzero) by (intros E0; rewrite <- Hdc in E0; rewrite E0, veqb_refl0 in Ez; discriminate).
+            destruct (gsum_nonzero_in i pre cc Hnz) as [t' [Ht' E']]. rewrite Forall_forall in Hpp. specialize (Hpp t' Ht'). lia. }
+          apply (IH (pre ++ [t]) _ _ (new ++ [(i, cc, dc)])); [|exact Hpp'|exact Hsp'|].
+          -- eapply Forall_impl; [|exact Hall]. unfold cle. intros; lia.
+          -- constructor.
+             ++ rewrite gsum_snoc, Z.eqb_refl, (Hnone (ccol t) Hlt). reflexivity.
+             ++ lia.
+             ++ intros t' Ht'. apply in_app_or in Ht'. destruct Ht' as [Ht'|[<-|[]]]; [specialize (Hpre t' Ht'); lia|lia].
+             ++ apply Forall_app. split.
+                ** eapply Forall_impl; [|exact Hnew]. simpl. intros x [? [? ?]]. split; [assumption|split; [lia|assumption]].
+                ** constructor; [simpl; split; [reflexivity|split; [lia|exact Hccp]]|constructor].
+             ++ apply SS_app; [exact Hsorted|repeat constructor|].
+                intros c1 c2 H1 [<-|[]]. right. simpl. rewrite Forall_forall in Hnew. destruct (Hnew c1 H1) as [? [? ?]]. split; [assumption|lia].
+             ++ intros j Hj. rewrite gsum_snoc. destruct (Z.eqb_spec (ccol t) j); [lia|].
+                rewrite cden_snoc. destruct (Z.eqb_spec j cc) as [->|Hne'].
+                ** exact Hdc.
+                ** destruct (Z.lt_ge_cases j cc) as [Hjc|Hjc]; [apply Hden; exact Hjc|].
+                   rewrite (Hnone j ltac:(lia)). unfold cden. rewrite (proj2 (cell_lookup_none_iff _ _ _)); [reflexivity|].
+                   rewrite Forall_forall in Hnew. intros x Hx [_ Hq]. destruct (Hnew x Hx) as [_ [Hb _]]. lia.
+  Qed.
+
+  Variable cs : list (Z * Z * V).
+  Hypothesis cs_sorted : StronglySorted cle cs.
+  Hypothesis cs_range : Forall (fun t => 0 <= ccol t < p) cs.
+
+  (* what one iteration of the outer loop appends, and its meaning *)
+  Record row_ok (i : Z) (new : list (Z * Z * V)) : Prop := {
+    ro_cells : Forall (fun x => fst (fst x) = i /\ 0 <= snd (fst x) < p) new;
+    ro_sorted : StronglySorted cell_lt new;
+    ro_den : forall j, cden V vzero new i j = gsum i cs j
+  }.
+
+  Lemma ncs_row i out0 :
+    exists new,
+      (let '(dc, cc, out') := fold_left (ncs_step V vzero vadd vmul veqb a1 i) cs (vzero, 0, out0) in
+       if negb (veqb dc vzero) then out' ++ [(i, cc, dc)] else out') = out0 ++ new
+      /\ row_ok i new.
+  Proof.
+    destruct (ncs_fold i out0 cs cs_sorted [] vzero 0 []) as [dc [cc [new [E Hinv]]]].
+    - eapply Forall_impl; [|exact cs_range]. simpl. intros; lia.
+    - constructor.
+    - eapply Forall_impl; [|exact cs_range]. simpl. intros; lia.
+    - constructor; try constructor; try reflexivity; try lia. simpl. tauto.
+    - rewrite app_nil_r in E. rewrite E. simpl app in Hinv.
+      destruct Hinv as [Hdc Hcc Hpre Hnew Hsorted Hden].
+      assert (Hnone : forall j, cc < j -> gsum i cs j = vzero).
+      { intros j Hj. apply gsum_none. intros t' Ht'. specialize (Hpre t' Ht'). lia. }
+      destruct (veqb dc vzero) eqn:Ez; simpl negb; cbv iota.
+      + apply veqb_zero in Ez. exists new. split; [reflexivity|]. constructor.
+        * eapply Forall_impl; [|exact Hnew]. simpl. intros x [? [? ?]]. split; [assumption|lia].
+        * exact Hsorted.
+        * intros j. destruct (Z.lt_ge_cases j cc) as [Hjc|Hjc]; [apply Hden; exact Hjc|].
+          assert (En : cden V vzero new i j = vzero).
+          { unfold cden. rewrite (proj2 (cell_lookup_none_iff _ _ _)); [reflexivity|].
+            rewrite Forall_forall in Hnew. intros x Hx [_ Hq]. destruct (Hnew x Hx) as [_ [Hb _]]. lia. }
+          rewrite En. destruct (Z.eq_dec j cc) as [->|Hne]; [rewrite <- Hdc; symmetry; exact Ez|].
+          symmetry. apply Hnone. lia.
+      + assert (Hccp : cc < p).
+        { assert (Hnz : gsum i cs cc <> vzero) by (intros E0; rewrite <- Hdc in E0; rewrite E0, veqb_refl0 in Ez; discriminate).
+          destruct (gsum_nonzero_in i cs cc Hnz) as [t' [Ht' E']]. rewrite Forall_forall in cs_range. specialize (cs_range t' Ht'). lia. }
+        exists (new ++ [(i, cc, dc)]). split; [rewrite app_assoc; reflexivity|]. constructor.
+        * apply Forall_app. split.
+          -- eapply Forall_impl; [|exact Hnew]. simpl. intros x [? [? ?]]. split; [assumption|lia].
+          -- constructor; [simpl; split; [reflexivity|lia]|constructor].
+        * apply SS_app; [exact Hsorted|repeat constructor|].
+          intros c1 c2 H1 [<-|[]]. right. simpl. rewrite Forall_forall in Hnew. destruct (Hnew c1 H1) as [? [? ?]]. split; [assumption|lia].
+        * intros j. rewrite cden_snoc. destruct (Z.eqb_spec j cc) as [->|Hne]; [exact Hdc|].
+          destruct (Z.lt_ge_cases j cc) as [Hjc|Hjc]; [apply Hden; exact Hjc|].
+          rewrite (Hnone j ltac:(lia)). unfold cden. rewrite (proj2 (cell_lookup_none_iff _ _ _)); [reflexivity|].
+          rewrite Forall_forall in Hnew. intros x Hx [_ Hq]. destruct (Hnew x Hx) as [_ [Hb _]]. lia.
+  Qed.
+
+  Definition ncs_outer (is : list Z) (out : list (Z * Z * V)) : list (Z * Z * V) :=
+    fold_left (fun out oidx1 =>
+                 let '(dc, cc, out') := fold_left (ncs_step V vzero vadd vmul veqb a1 oidx1) cs (vzero, 0, out) in
+                 if negb (veqb dc vzero) then out' ++ [(oidx1, cc, dc)] else out') is out.
+
+  Lemma ncs_outer_spec : forall (is : list Z) out0,
+    exists news, ncs_outer is out0 = out0 ++ concat news /\ Forall2 row_ok is news.
+  Proof.
+    induction is as [|i is IH]; intros out0.
+    - exists []. simpl. rewrite app_nil_r. split; [reflexivity|constructor].
+    - destruct (ncs_row i out0) as [new [E Hok]]. unfold ncs_outer. cbn [fold_left]. rewrite E.
+      destruct (IH (out0 ++ new)) as [news [E' Hall]]. unfold ncs_outer in E'. rewrite E'.
+      exists (new :: news). simpl. rewrite <- app_assoc. split; [reflexivity|constructor; assumption].
+  Qed.
+
+  Lemma concat_rows_den (is : list Z) news i j : Forall2 row_ok is news -> NoDup is -> In i is ->
+    cden V vzero (concat news) i j = gsum i cs j.
+  Proof.
+    induction 1 as [|i' new is' news' Hok Hall IH]; intros Hnd Hin; [contradiction|].
+    apply NoDup_cons_iff in Hnd. destruct Hnd as [Hni Hnd]. simpl. unfold cden. rewrite cell_lookup_app.
+    destruct Hin as [->|Hin].
+    - assert (En : cell_lookup V (concat news') i j = None).
+      { apply cell_lookup_none_iff. intros x Hx [Hr _]. apply in_concat in Hx. destruct Hx as [nw [Hnw Hx]].
+        clear -Hall Hnw Hx Hr Hni. induction Hall as [|i2 n2 is2 ns2 Hok2 Hall2 IH2]; [contradiction|].
+        destruct Hnw as [<-|Hnw].
+        - pose proof (ro_cells _ _ Hok2) as Hc. rewrite Forall_forall in Hc. destruct (Hc x Hx) as [E _].
+          apply Hni. left. congruence.
+        - apply IH2; [intros H; apply Hni; right; exact H|exact Hnw]. }
+      rewrite En. apply (ro_den _ _ Hok).
+    - assert (En : cell_lookup V new i j = None).
+      { apply cell_lookup_none_iff. intros x Hx [Hr _]. pose proof (ro_cells _ _ Hok) as Hc. rewrite Forall_forall in Hc.
+        destruct (Hc x Hx) as [E _]. apply Hni. congruence. }
+      specialize (IH Hnd Hin). unfold cden in IH. destruct (cell_lookup V (concat news') i j); [exact IH|].
+      rewrite En. exact IH.
+  Qed.
+
+  Lemma concat_rows_sorted (is : list Z) news : Forall2 row_ok is news -> StronglySorted Z.lt is ->
+    StronglySorted cell_lt (concat news)
+    /\ Forall (fun x => In (fst (fst x)) is /\ 0 <= snd (fst x) < p) (concat news).
+  Proof.
+    induction 1 as [|i' new is' news' Hok Hall IH]; intros Hs; [split; constructor|].
+    apply StronglySorted_inv in Hs. destruct Hs as [Hs Hlt]. destruct (IH Hs) as [IH1 IH2]. simpl. split.
+    - apply SS_app; [apply (ro_sorted _ _ Hok)|exact IH1|].
+      intros c1 c2 H1 H2. left. pose proof (ro_cells _ _ Hok) as Hc. rewrite Forall_forall in Hc, IH2, Hlt.
+      destruct (Hc c1 H1) as [-> _]. destruct (IH2 c2 H2) as [Hin _]. apply Hlt. exact Hin.
+    - apply Forall_app. split.
+      + eapply Forall_impl; [|apply (ro_cells _ _ Hok)]. simpl. intros x [-> H]. split; [left; reflexivity|exact H].
+      + eapply Forall_impl; [|exact IH2]. simpl. intros x [H1 H2]. split; [right; exact H1|exact H2].
+  Qed.
+End NdCooSparse.
+
+Lemma SS_cle_combine {V} (cols2 rows2 : list Z) (data2 : list V) :
+  StronglySorted Z.le cols2 -> StronglySorted (@cle V) (combine (combine cols2 rows2) data2).
+Proof.
+  intros H. revert rows2 data2. induction H as [|c cols2 Hs IH Hall]; intros rows2 data2; simpl; [constructor|].
+  destruct rows2 as [|r rows2]; [constructor|]. destruct data2 as [|v data2]; simpl; [constructor|].
+  constructor; [apply IH|]. apply Forall_forall. intros [[c' r'] v'] Hin. unfold cle, ccol. simpl.
+  apply in_combine_l in Hin. apply in_combine_l in Hin. rewrite Forall_forall in Hall. apply Hall. exact Hin.
+Qed.
+
+Theorem dot_ndarray_coo_sparse_proof (V : Type) (vzero : V) (vadd vmul : V -> V -> V) (veqb : V -> V -> bool) :
+  comm_semiring vzero vadd vmul -> (forall x, veqb x vzero = true -> x = vzero) -> veqb vzero vzero = true ->
+  forall (a1 : Z -> Z -> V) (cols2 rows2 : list Z) (data2 : list V) (m n_in p : Z),
+    length cols2 = length data2 -> length rows2 = length data2 ->
+    NoDup (combine cols2 rows2) -> StronglySorted Z.le cols2 ->
+    Forall (fun c => 0 <= c < p) cols2 -> Forall (fun r => 0 <= r < n_in) rows2 ->
+    let o := dot_ndarray_coo_sparse V vzero vadd vmul veqb m a1 cols2 rows2 data2 in
+    StronglySorted cell_lt o
+    /\ Forall (fun x => 0 <= fst (fst x) < m /\ 0 <= snd (fst x) < p) o
+    /\ forall i j, 0 <= i < m ->
+         cden V vzero o i j
+         = np_matmul2 V vzero vadd vmul n_in a1 (fun r j => coo_cells_den V vzero cols2 rows2 data2 j r) i j.
+Proof.
+  intros SR Hz Hz0 a1 cols2 rows2 data2 m n_in p Hc Hr Hnd Hs Hcr Hrr o.
+  set (cs := combine (combine cols2 rows2) data2).
+  assert (Hfst : map fst cs = combine cols2 rows2) by (unfold cs; apply map_fst_combine; rewrite combine_length; lia).
+  assert (Hcs_sorted : StronglySorted (@cle V) cs) by (apply SS_cle_combine; exact Hs).
+  assert (Hcs_range : Forall (fun t => 0 <= ccol V t < p) cs).
+  { apply Forall_forall. intros [[c r] v] Hin. unfold ccol. simpl.
+    assert (In (c, r) (combine cols2 rows2)) by (rewrite <- Hfst; apply in_map_iff; exists (c, r, v); auto).
+    apply in_combine_l in H. rewrite Forall_forall in Hcr. apply Hcr. exact H. }
+  destruct (ncs_outer_spec V vzero vadd vmul veqb Hz Hz0 a1 p cs Hcs_sorted Hcs_range (zrange m) []) as [news [E Hall]].
+  assert (Eo : o = concat news) by (unfold o, dot_ndarray_coo_sparse; fold cs; exact E).
+  rewrite Eo. destruct (concat_rows_sorted V vzero vadd vmul a1 p cs (zrange m) news Hall (zrange_SS m)) as [S1 S2].
+  split; [exact S1|]. split.
+  - eapply Forall_impl; [|exact S2]. simpl. intros x [H1 H2]. apply zrange_In in H1. tauto.
+  - intros i j Hi.
+    rewrite (concat_rows_den V vzero vadd vmul a1 p cs (zrange m) news i j Hall (zrange_NoDup m)) by (apply zrange_In; exact Hi).
+    assert (G : forall s, fold_left (fun s t => if ccol V t =? j then vadd s (vmul (a1 i (snd (fst t))) (snd t)) else s) cs s
+                = vadd s (vsum V vzero vadd (map (fun rv => vmul (snd rv) (a1 i (fst rv))) (row_of V j cs)))).
+    { unfold row_of, ccol. clear -SR. induction cs as [|[[c r] v] cs IH]; intros s; simpl.
+      - symmetry. apply (add_0_r V vzero vadd vmul SR).
+      - destruct (Z.eqb_spec c j); simpl; rewrite IH; [|reflexivity].
+        rewrite (sr_add_assoc _ _ _ SR). f_equal. f_equal. apply (sr_mul_comm _ _ _ SR). }
+    unfold gsum. rewrite G, (sr_add_0_l _ _ _ SR).
+    rewrite (sparse_row_sum V vzero vadd vmul SR (a1 i) n_in (row_of V j cs)).
+    + unfold np_matmul2, sum_over. f_equal. apply map_ext. intros r.
+      rewrite (sr_mul_comm _ _ _ SR). f_equal. unfold row_get, coo_cells_den. fold cs. rewrite cell_lookup_row_of. reflexivity.
+    + apply row_of_keys_NoDup. rewrite Hfst. exact Hnd.
+    + apply Forall_forall. intros [r v] Hin. simpl. unfold row_of in Hin. apply in_map_iff in Hin.
+      destruct Hin as [[[c' r'] v'] [E' Hin]]. simpl in E'. inversion E'; subst r' v'.
+      apply filter_In in Hin. destruct Hin as [Hin _].
+      assert (In (c', r) (combine cols2 rows2)) by (rewrite <- Hfst; apply in_map_iff; exists (c', r, v); auto).
+      apply in_combine_r in H. rewrite Forall_forall in Hrr. apply Hrr. exact H.
+Qed.
+
+(* ====================================================================== a well-formed CSR triple is its list of rows *)
+Lemma firstn_add {A} (n m : nat) (l : list A) : firstn (n + m) l = firstn n l ++ firstn m (skipn n l).
+Proof. revert l; induction n as [|n IH]; intros [|x l]; simpl; try reflexivity; [rewrite firstn_nil; reflexivity|]. rewrite IH. reflexivity. Qed.
+
+Lemma skipn_add {A} (n m : nat) (l : list A) : skipn m (skipn n l) = skipn (n + m) l.
+Proof. revert l; induction n as [|n IH]; intros [|x l]; simpl; try reflexivity; [apply skipn_nil|apply IH]. Qed.
+
+Lemma slice_glue {A} (l : list A) a b c : 0 <= a <= b -> b <= c ->
+  slice_list l a b ++ slice_list l b c = slice_list l a c.
+Proof.
+  intros H1 H2. unfold slice_list.
+  replace (Z.to_nat (c - a)) with (Z.to_nat (b - a) + Z.to_nat (c - b))%nat by lia.
+  rewrite firstn_add. f_equal. rewrite skipn_add. f_equal. f_equal. lia.
+Qed.
+
+Lemma slice_length {A} (l : list A) a b : 0 <= a <= b -> b <= Z.of_nat (length l) ->
+  Z.of_nat (length (slice_list l a b)) = b - a.
+Proof. intros H1 H2. unfold slice_list. rewrite firstn_length, skipn_length. lia. Qed.
+
+Lemma slice_full {A} (l : list A) : slice_list l 0 (Z.of_nat (length l)) = l.
+Proof. unfold slice_list. simpl. rewrite Z.sub_0_r, Nat2Z.id. apply firstn_all. Qed.
+
+Lemma last_default {A} (l : list A) (x : A) d d' : last (x :: l) d = last (x :: l) d'.
+Proof. revert x; induction l as [|y l IH]; intros x; [reflexivity|]. change (last (x :: y :: l) d) with (last (y :: l) d). change (last (x :: y :: l) d') with (last (y :: l) d'). apply IH. Qed.
+
+Lemma nondecreasing_le_last (rest : list Z) b : nondecreasing (b :: rest) = true -> b <= last rest b.
+Proof.
+  revert b; induction rest as [|c rest IHr]; intros b Hnd; simpl; [lia|].
+  change (nondecreasing (b :: c :: rest)) with ((b <=? c) && nondecreasing (c :: rest)) in Hnd.
+  apply andb_true_iff in Hnd. destruct Hnd as [H1 H2]. apply Z.leb_le in H1. specialize (IHr c H2).
+  change (match rest with [] => c | _ :: _ => last rest b end) with (last (c :: rest) b).
+  destruct rest as [|c' rest']; [simpl; lia|].
+  change (last (c :: c' :: rest') b) with (last (c' :: rest') b). rewrite (last_default rest' c' b c). lia.
+Qed.
+
+Lemma rows_decomp {A} (l : list A) : forall (rest : list Z) (s : Z),
+  nondecreasing (s :: rest) = true -> 0 <= s -> Forall (fun x => x <= Z.of_nat (length l)) (s :: rest) ->
+  offs s (rows_of l (s :: rest)) = s :: rest
+  /\ concat (rows_of l (s :: rest)) = slice_list l s (last rest s).
+Proof.
+  induction rest as [|b rest IH]; intros s Hnd Hs Hle.
+  - simpl. split; [reflexivity|]. unfold slice_list. rewrite Z.sub_diag. reflexivity.
+  - rewrite rows_of_cons2. change (nondecreasing (s :: b :: rest)) with ((s <=? b) && nondecreasing (b :: rest)) in Hnd.
+    apply andb_true_iff in Hnd. destruct Hnd as [Hsb Hnd]. apply Z.leb_le in Hsb.
+    pose proof (Forall_inv_tail Hle) as Hle'. pose proof (Forall_inv Hle') as Hb. simpl in Hb.
+    destruct (IH b Hnd ltac:(lia) Hle') as [IH1 IH2].
+    assert (Hlast : b <= last rest b) by (apply nondecreasing_le_last; exact Hnd).
+    split.
+    + cbn [offs]. rewrite slice_length by lia. replace (s + (b - s)) with b by lia. rewrite IH1. reflexivity.
+    + cbn [concat]. rewrite IH2.
+      replace (last (b :: rest) s) with (last rest b) by (destruct rest as [|c r']; [reflexivity|apply (last_default r' c b s)]).
+      apply slice_glue; lia.
+Qed.
+
+Lemma last_cons_default (l : list Z) b s : last (b :: l) s = last l b.
+Proof. destruct l as [|c r']; [reflexivity|]. change (last (b :: c :: r') s) with (last (c :: r') s). apply last_default. Qed.
+
+Lemma nondecreasing_bounds (l : list Z) s : nondecreasing (s :: l) = true ->
+  Forall (fun x => s <= x <= last l s) (s :: l).
+Proof.
+  revert s; induction l as [|b l IH]; intros s H.
+  - simpl. constructor; [lia|constructor].
+  - change (nondecreasing (s :: b :: l)) with ((s <=? b) && nondecreasing (b :: l)) in H.
+    apply andb_true_iff in H. destruct H as [H1 H2]. apply Z.leb_le in H1. specialize (IH b H2).
+    rewrite (last_cons_default l b s).
+    pose proof (Forall_inv IH) as Hb. simpl in Hb.
+    constructor; [lia|]. eapply Forall_impl; [|exact IH]. simpl. intros; lia.
+Qed.
+
+Lemma nth_length_last (l : list Z) s d : nth (length l) (s :: l) d = last l s.
+Proof.
+  revert s; induction l as [|b l IH]; intros s; [reflexivity|].
+  change (nth (length (b :: l)) (s :: b :: l) d) with (nth (length l) (b :: l) d). rewrite (IH b). symmetry. apply last_cons_default.
+Qed.
+
+Section Decomp.
+  Variable V : Type.
+
+  Definition rows_view (m : csr V) : list (list (Z * V)) :=
+    map (fun p => combine (fst p) (snd p))
+        (combine (rows_of (m_indices m) (m_indptr m)) (rows_of (m_data m) (m_indptr m))).
+
+  Lemma concat_combine_rows {A B} (R1 : list (list A)) (R2 : list (list B)) :
+    map (@length A) R1 = map (@length B) R2 ->
+    map fst (concat (map (fun p => combine (fst p) (snd p)) (combine R1 R2))) = concat R1
+    /\ map snd (concat (map (fun p => combine (fst p) (snd p)) (combine R1 R2))) = concat R2
+    /\ map (@length (A * B)) (map (fun p => combine (fst p) (snd p)) (combine R1 R2)) = map (@length A) R1.
+  Proof.
+    revert R2; induction R1 as [|r1 R1 IH]; intros [|r2 R2] H; simpl in *; try discriminate; [auto|].
+    inversion H as [[H1 H2]]. destruct (IH R2 H2) as [I1 [I2 I3]].
+    rewrite !map_app, I1, I2, I3. repeat split.
+    - f_equal. apply map_fst_combine. exact H1.
+    - f_equal. clear -H1. revert r2 H1; induction r1; intros [|b r2] H; simpl in *; try discriminate; auto. f_equal. apply IHr1. lia.
+    - f_equal. rewrite combine_length. lia.
+  Qed.
+
+  Lemma rows_of_lengths {A B} (l1 : list A) (l2 : list B) indptr : length l1 = length l2 ->
+    map (@length A) (rows_of l1 indptr) = map (@length B) (rows_of l2 indptr).
+  Proof.
+    intros H. induction indptr as [|a t IH]; [reflexivity|]. destruct t as [|b t']; [reflexivity|].
+    rewrite !rows_of_cons2. cbn [map]. f_equal; [apply slice_length_eq; exact H|exact IH].
+  Qed.
+
+  (* a well-formed CSR triple IS csr_of_rows of its rows *)
+  Lemma csr_decomp n_row n_col (m : csr V) : csr_wfb n_row n_col m = true ->
+    m = csr_of_rows V (rows_view m) /\ Z.of_nat (length (rows_view m)) = n_row.
+  Proof.
+    unfold csr_wfb. rewrite !andb_true_iff.
+    intros [[[[[[[[H1 H2] H3] H4] H5] H6] H7] H8] H9].
+    apply Nat.eqb_eq in H1. apply Z.leb_le in H2, H3. apply Z.eqb_eq in H4, H5, H6.
+    destruct m as [dat idx ptr]. simpl in *.
+    destruct ptr as [|s rest]; [simpl in H4; lia|].
+    unfold znth in H5. simpl in H5. subst s.
+    assert (Hlast : last rest 0 = Z.of_nat (length dat)).
+    { rewrite <- H6. unfold znth. replace (Z.to_nat n_row) with (length rest) by (simpl in H4; lia).
+      symmetry. apply nth_length_last. }
+    pose proof (nondecreasing_bounds rest 0 H7) as Hb. rewrite Hlast in Hb.
+    assert (Hle : forall {A} (l : list A), length l = length dat -> Forall (fun x => x <= Z.of_nat (length l)) (0 :: rest)).
+    { intros A l Hl. rewrite Hl. eapply Forall_impl; [|exact Hb]. simpl. intros; lia. }
+    destruct (rows_decomp idx rest 0 H7 ltac:(lia) (Hle _ idx H1)) as [O1 C1].
+    destruct (rows_decomp dat rest 0 H7 ltac:(lia) (Hle _ dat eq_refl)) as [O2 C2].
+    rewrite Hlast in C1, C2. rewrite <- H1 in C1. rewrite slice_full in C1. rewrite slice_full in C2.
+    unfold rows_view. cbn [m_data m_indices m_indptr].
+    pose proof (rows_of_lengths idx dat (0 :: rest) H1) as HL.
+    destruct (concat_combine_rows _ _ HL) as [E1 [E2 E3]].
+    split.
+    - unfold csr_of_rows. rewrite E1, E2, C1, C2. f_equal.
+      rewrite (offs_length_ext _ (rows_of idx (0 :: rest)) 0 E3). symmetry. exact O1.
+    - rewrite map_length, combine_length, !rows_of_length. simpl length in *. lia.
+  Qed.
+End Decomp.
+
+(* ====================================================================== csr_den = gden;  GCXS._prune *)
+Fixpoint rn_go (r : Z) (l : list Z) : list Z :=
+  match l with
+  | a :: ((b :: _) as t) => repeat r (Z.to_nat (b - a)) ++ rn_go (r + 1) t
+  | _ => []
+  end.
+
+Lemma row_numbers_rn indptr : row_numbers indptr = rn_go 0 indptr.
+Proof. reflexivity. Qed.
+
+Lemma rn_go_cons2 r a b t : rn_go r (a :: b :: t) = repeat r (Z.to_nat (b - a)) ++ rn_go (r + 1) (b :: t).
+Proof. reflexivity. Qed.
+
+Fixpoint tags {A} (r : Z) (R : list (list A)) : list Z :=
+  match R with [] => [] | row :: R' => repeat r (length row) ++ tags (r + 1) R' end.
+
+Lemma rn_offs {A} (R : list (list A)) : forall r s, rn_go r (offs s R) = tags r R.
+Proof.
+  induction R as [|row R IH]; intros r s; [reflexivity|].
+  cbn [offs]. destruct (offs_head (s + Z.of_nat (length row)) R) as [t Ht]. rewrite Ht.
+  rewrite rn_go_cons2, <- Ht, IH. cbn [tags]. f_equal. f_equal. lia.
+Qed.
+
+Lemma combine_app_eq {A B} (l1 l2 : list A) (m1 m2 : list B) : length l1 = length m1 ->
+  combine (l1 ++ l2) (m1 ++ m2) = combine l1 m1 ++ combine l2 m2.
+Proof. revert m1; induction l1 as [|x l1 IH]; intros [|y m1] H; simpl in *; try discriminate; [reflexivity|]. f_equal. apply IH. lia. Qed.
+
+Section Bridge.
+  Variable V : Type.
+  Variable vzero : V.
+
+  Fixpoint tag_rows (r : Z) (R : list (list (Z * V))) : list (Z * Z * V) :=
+    match R with [] => [] | row :: R' => map (fun kv => (r, fst kv, snd kv)) row ++ tag_rows (r + 1) R' end.
+
+  Lemma combine_tags (R : list (list (Z * V))) : forall r,
+    combine (combine (tags r R) (map fst (concat R))) (map snd (concat R)) = tag_rows r R.
+  Proof.
+    induction R as [|row R IH]; intros r; [reflexivity|].
+    cbn [tags concat tag_rows]. rewrite !map_app.
+    rewrite combine_app_eq by (rewrite repeat_length, map_length; reflexivity).
+    rewrite combine_app_eq by (rewrite combine_length, repeat_length, !map_length; lia).
+    rewrite IH. f_equal. clear. induction row as [|[k v] row IHr]; simpl; [reflexivity|]. f_equal. exact IHr.
+  Qed.
+
+  Lemma cell_lookup_tag_rows (R : list (list (Z * V))) : forall r0 i k,
+    cell_lookup V (tag_rows r0 R) i k
+    = match (if i <? r0 then None else nth_error R (Z.to_nat (i - r0))) with
+      | Some row => row_lookup row k | None => None end.
+  Proof.
+    induction R as [|row R IH]; intros r0 i k.
+    - simpl. destruct (i <? r0); [reflexivity|]. destruct (Z.to_nat (i - r0)); reflexivity.
+    - cbn [tag_rows]. rewrite cell_lookup_app, IH.
+      change (map (fun kv => (r0, fst kv, snd kv)) row) with (tag_row V r0 row). rewrite cell_lookup_tag_row.
+      destruct (Z.ltb_spec i r0) as [Hlt|Hge].
+      + destruct (Z.ltb_spec i (r0 + 1)); [|lia]. destruct (Z.eqb_spec r0 i); [lia|reflexivity].
+      + destruct (Z.eq_dec i r0) as [->|Hne].
+        * destruct (Z.ltb_spec r0 (r0 + 1)); [|lia]. rewrite Z.eqb_refl, Z.sub_diag. reflexivity.
+        * destruct (Z.ltb_spec i (r0 + 1)); [lia|]. destruct (Z.eqb_spec r0 i); [lia|].
+          replace (Z.to_nat (i - r0)) with (S (Z.to_nat (i - (r0 + 1)))) by lia. cbn [nth_error].
+          destruct (nth_error R (Z.to_nat (i - (r0 + 1)))) as [rw|]; [destruct (row_lookup rw k); reflexivity|reflexivity].
+  Qed.
+
+  Lemma lookup_cells (cells : list (Z * Z * V)) i k :
+    lookup (map (fun t => ([fst (fst t); snd (fst t)], snd t)) cells) [i; k] = cell_lookup V cells i k.
+  Proof.
+    induction cells as [|[[r c] v] cells IH]; simpl; [reflexivity|]. rewrite IH.
+    destruct (cell_lookup V cells i k); [reflexivity|]. rewrite andb_true_r. reflexivity.
+  Qed.
+
+  Lemma unpermute01 (r c : Z) : unpermute [0; 1] [r; c] = [r; c].
+  Proof. reflexivity. Qed.
+
+  (* the dense meaning Model/GCXS.v gives to a 2-d GCXS with compressed_axes = (0,) is csr_den *)
+  Lemma gden_csr_of_rows n_row n_col (R : list (list (Z * V))) i k :
+    Z.of_nat (length R) = n_row -> 0 <= n_col ->
+    Forall (fun c => 0 <= c < n_col) (map fst (concat R)) -> 0 <= i < n_row ->
+    gden (mkGCXS [n_row; n_col] [0] (map snd (concat R)) (map fst (concat R)) (offs 0 R) vzero) [i; k]
+    = csr_den V vzero (csr_of_rows V R) i k.
+  Proof.
+    intros HR Hn Hrange Hi. unfold gden, den, gcxs_as_coo, entries. cbn [c_coords c_data c_fill g_shape g_data g_fill].
+    unfold gcxs_coords. cbn [g_shape g_caxes g_indices g_indptr length].
+    change (axis_order (Z.of_nat 2) [0]) with [0; 1].
+    change (reordered_shape [n_row; n_col] [0]) with [n_row; n_col].
+    change (col_size [n_row; n_col] [0]) with (n_col * 1).
+    rewrite row_numbers_rn, rn_offs.
+    assert (Ec : map (fun rc => unpermute [0; 1] (unravel [n_row; n_col] (fst rc * (n_col * 1) + snd rc)))
+                     (combine (tags 0 R) (map fst (concat R)))
+                 = map (fun rc => [fst rc; snd rc]) (combine (tags 0 R) (map fst (concat R)))).
+    { apply map_ext_in. intros [r c] Hin. apply in_combine_r in Hin. rewrite Forall_forall in Hrange. specialize (Hrange c Hin).
+      cbn [fst snd]. rewrite Z.mul_1_r, unravel2 by lia. apply unpermute01. }
+    rewrite Ec.
+    assert (Ee : combine (map (fun rc : Z * Z => [fst rc; snd rc]) (combine (tags 0 R) (map fst (concat R)))) (map snd (concat R))
+                 = map (fun t => ([fst (fst t); snd (fst t)], snd t)) (tag_rows 0 R)).
+    { rewrite <- combine_tags. generalize (combine (tags 0 R) (map fst (concat R))) as L. generalize (map snd (concat R)) as D.
+      intros D L. revert D; induction L as [|[r c] L IHL]; intros [|v D]; simpl; try reflexivity. f_equal. apply IHL. }
+    unfold idx in *. rewrite Ee. fold idx. rewrite lookup_cells, cell_lookup_tag_rows.
+    destruct (Z.ltb_spec i 0); [lia|]. rewrite Z.sub_0_r.
+    unfold csr_den. replace i with (Z.of_nat (Z.to_nat i)) at 2 by lia.
+    rewrite csr_of_rows_row by lia. unfold row_get.
+    rewrite (nth_error_nth' R [] (n := Z.to_nat i)) by lia. reflexivity.
+  Qed.
+
+  Theorem csr_den_gden_proof n_row n_col (m : csr V) i k :
+    csr_wfb n_row n_col m = true -> 0 <= i < n_row ->
+    gden (mkGCXS [n_row; n_col] [0] (m_data m) (m_indices m) (m_indptr m) vzero) [i; k] = csr_den V vzero m i k.
+  Proof.
+    intros Hwf Hi. destruct (csr_decomp V n_row n_col m Hwf) as [E HR].
+    destruct (csr_wfb_facts V _ _ _ Hwf) as [_ [_ [Hn [_ [H5 _]]]]].
+    rewrite E at 4. rewrite E in H5. unfold csr_of_rows in H5. simpl in H5.
+    rewrite <- (gden_csr_of_rows n_row n_col (rows_view V m) i k HR Hn H5 Hi).
+    rewrite E at 1 2 3. reflexivity.
+  Qed.
+End Bridge.
+
+Section Prune.
+  Variable V : Type.
+  Variable vzero : V.
+  Variable veqb : V -> V -> bool.
+  Hypothesis veqb_zero : forall x, veqb x vzero = true -> x = vzero.
+
+  Definition nzkv (kv : Z * V) : bool := negb (veqb (snd kv) vzero).
+
+  Lemma filter_tag_rows (R : list (list (Z * V))) : forall r,
+    filter (fun c : Z * Z * V => negb (veqb (snd c) vzero)) (tag_rows V r R) = tag_rows V r (map (filter nzkv) R).
+  Proof.
+    induction R as [|row R IH]; intros r; [reflexivity|].
+    cbn [tag_rows map]. rewrite filter_app, IH. f_equal.
+    clear. induction row as [|[k v] row IHr]; simpl; [reflexivity|]. unfold nzkv at 1. simpl.
+    destruct (negb (veqb v vzero)); simpl; rewrite IHr; reflexivity.
+  Qed.
+
+  Lemma tag_rows_proj (R : list (list (Z * V))) : forall r,
+    map snd (tag_rows V r R) = map snd (concat R)
+    /\ map (fun c : Z * Z * V => snd (fst c)) (tag_rows V r R) = map fst (concat R).
+  Proof.
+    induction R as [|row R IH]; intros r; [split; reflexivity|].
+    cbn [tag_rows concat]. rewrite !map_app. destruct (IH (r + 1)) as [I1 I2]. rewrite I1, I2.
+    split; f_equal; rewrite map_map; reflexivity.
+  Qed.
+
+  Lemma count_tag_rows (R : list (list (Z * V))) : forall r0 r, r0 <= r ->
+    length (filter (fun c : Z * Z * V => fst (fst c) <? r) (tag_rows V r0 R))
+    = length (concat (firstn (Z.to_nat (r - r0)) R)).
+  Proof.
+    induction R as [|row R IH]; intros r0 r Hr; [destruct (Z.to_nat (r - r0)); reflexivity|].
+    cbn [tag_rows]. rewrite filter_app, app_length.
+    destruct (Z.eq_dec r r0) as [->|Hne].
+    - rewrite Z.sub_diag. simpl firstn. simpl concat. simpl length.
+      assert (E1 : filter (fun c : Z * Z * V => fst (fst c) <? r0) (map (fun kv => (r0, fst kv, snd kv)) row) = []).
+      { clear. induction row as [|kv row IHr]; simpl; [reflexivity|]. rewrite Z.ltb_irrefl. exact IHr. }
+      rewrite E1. simpl.
+      assert (E2 : forall R' r1, r0 < r1 -> filter (fun c : Z * Z * V => fst (fst c) <? r0) (tag_rows V r1 R') = []).
+      { induction R' as [|rw R' IHR]; intros r1 Hr1; [reflexivity|]. cbn [tag_rows]. rewrite filter_app, (IHR (r1 + 1)) by lia.
+        rewrite app_nil_r. clear -Hr1. induction rw as [|kv rw IHr]; simpl; [reflexivity|].
+        destruct (Z.ltb_spec r1 r0); [lia|exact IHr]. }
+      rewrite E2 by lia. reflexivity.
+    - replace (Z.to_nat (r - r0)) with (S (Z.to_nat (r - (r0 + 1)))) by lia. cbn [firstn concat].
+      rewrite app_length, (IH (r0 + 1) r) by lia. f_equal.
+      clear -Hr Hne. induction row as [|kv row IHr]; simpl; [reflexivity|].
+      destruct (Z.ltb_spec r0 r); [|lia]. simpl. f_equal. exact IHr.
+  Qed.
+
+  Lemma offs_as_map {A} (R : list (list A)) : forall s,
+    offs s R = map (fun t => s + Z.of_nat (length (concat (firstn t R)))) (seq 0 (S (length R))).
+  Proof.
+    induction R as [|row R IH]; intros s; [simpl; f_equal; lia|].
+    cbn [offs]. rewrite IH. change (length (row :: R)) with (S (length R)).
+    change (seq 0 (S (S (length R)))) with (0%nat :: seq 1 (S (length R))).
+    cbn [map]. f_equal; [simpl; lia|].
+    rewrite <- seq_shift, map_map. apply map_ext. intros t. cbn [firstn concat]. rewrite app_length. lia.
+  Qed.
+
+  Lemma prune_csr_of_rows n_row (R : list (list (Z * V))) : Z.of_nat (length R) = n_row ->
+    prune_csr V vzero veqb n_row (csr_of_rows V R) = csr_of_rows V (map (filter nzkv) R).
+  Proof.
+    intros HR. unfold prune_csr, csr_of_rows. cbn [m_data m_indices m_indptr].
+    rewrite row_numbers_rn, rn_offs, combine_tags, filter_tag_rows.
+    destruct (tag_rows_proj (map (filter nzkv) R) 0) as [P1 P2]. rewrite P1, P2. f_equal.
+    rewrite offs_as_map, map_length. unfold zrange. rewrite map_map.
+    replace (Z.to_nat (n_row + 1)) with (S (length R)) by lia.
+    apply map_ext. intros t. rewrite count_tag_rows by lia. rewrite Z.sub_0_r, Nat2Z.id. lia.
+  Qed.
+
+  Lemma row_get_filter (row : list (Z * V)) k : NoDup (map fst row) ->
+    row_get V vzero (filter nzkv row) k = row_get V vzero row k.
+  Proof.
+    intros Hnd. unfold row_get.
+    assert (Hnd' : NoDup (map fst (filter nzkv row))).
+    { clear -Hnd. induction row as [|[c v] row IH]; simpl in *; [constructor|].
+      apply NoDup_cons_iff in Hnd. destruct Hnd as [Hc Hnd]. destruct (nzkv (c, v)); simpl; [|apply IH; exact Hnd].
+      constructor; [|apply IH; exact Hnd]. intros Hin. apply Hc. apply in_map_iff in Hin. destruct Hin as [kv [E Hin]].
+      apply filter_In in Hin. apply in_map_iff. exists kv. tauto. }
+    destruct (row_lookup row k) as [v|] eqn:E.
+    - apply (row_lookup_In V row k v Hnd) in E. destruct (nzkv (k, v)) eqn:En.
+      + assert (In (k, v) (filter nzkv row)) by (apply filter_In; auto).
+        apply (row_lookup_In V _ k v Hnd') in H. rewrite H. reflexivity.
+      + unfold nzkv in En. simpl in En. apply negb_false_iff in En. apply veqb_zero in En. subst v.
+        destruct (row_lookup (filter nzkv row) k) as [w|] eqn:E2; [|reflexivity].
+        apply (row_lookup_In V _ k w Hnd') in E2. apply filter_In in E2. destruct E2 as [E2 Hw].
+        assert (w = vzero); [|congruence].
+        assert (Hl1 : row_lookup row k = Some w) by (apply (row_lookup_In V row k w Hnd); exact E2).
+        assert (Hl2 : row_lookup row k = Some vzero) by (apply (row_lookup_In V row k vzero Hnd); exact E).
+        congruence.
+    - apply row_lookup_None in E.
+      assert (E2 : row_lookup (filter nzkv row) k = None).
+      { apply row_lookup_None. intros Hin. apply E. apply in_map_iff in Hin. destruct Hin as [kv [Ek Hin]].
+        apply filter_In in Hin. apply in_map_iff. exists kv. tauto. }
+      rewrite E2. reflexivity.
+  Qed.
+
+  (* GCXS._prune keeps the matrix well formed and its dense meaning *)
+  Theorem prune_csr_correct_proof n_row n_col (m : csr V) :
+    csr_wfb n_row n_col m = true ->
+    csr_wfb n_row n_col (prune_csr V vzero veqb n_row m) = true
+    /\ forall i k, 0 <= i < n_row -> csr_den V vzero (prune_csr V vzero veqb n_row m) i k = csr_den V vzero m i k.
+  Proof.
+    intros Hwf. destruct (csr_decomp V n_row n_col m Hwf) as [E HR].
+    destruct (csr_wfb_facts V _ _ _ Hwf) as [H1 [_ [Hn [_ [H5 H6]]]]].
+    set (R := rows_view V m) in *.
+    assert (Hrow : forall i, 0 <= i < n_row -> nth (Z.to_nat i) R [] = row_pairs m i).
+    { intros i Hi. transitivity (row_pairs (csr_of_rows V R) i); [|rewrite <- E; reflexivity].
+      replace i with (Z.of_nat (Z.to_nat i)) at 2 by lia. symmetry. apply csr_of_rows_row. lia. }
+    rewrite E, (prune_csr_of_rows n_row R HR). split.
+    - apply csr_of_rows_wf; [rewrite map_length; exact HR|exact Hn|].
+      intros r Hr. apply in_map_iff in Hr. destruct Hr as [row [<- Hrow']].
+      destruct (In_nth R row [] Hrow') as [t [Ht Et]].
+      assert (Hrt : row = row_pairs m (Z.of_nat t)) by (rewrite <- Et, <- (Hrow (Z.of_nat t)) by lia; rewrite Nat2Z.id; reflexivity).
+      assert (Hsi : strictly_increasing (map fst row) = true).
+      { rewrite Hrt, row_pairs_keys by assumption. apply H6. lia. }
+      assert (Hfm : forall l : list (Z * V), StronglySorted Z.lt (map fst l) -> StronglySorted Z.lt (map fst (filter nzkv l))).
+      { induction l as [|kv l IHl]; simpl; intros Hs; [constructor|].
+        apply StronglySorted_inv in Hs. destruct Hs as [Hs Hall]. destruct (nzkv kv); simpl; [|apply IHl; exact Hs].
+        constructor; [apply IHl; exact Hs|]. apply Forall_forall. intros x Hx. apply in_map_iff in Hx. destruct Hx as [kv' [<- Hx]].
+        apply filter_In in Hx. rewrite Forall_forall in Hall. apply Hall. apply in_map. tauto. }
+      split.
+      + apply SS_lt_strictly_increasing, Hfm, strictly_increasing_SS, Hsi.
+      + apply Forall_forall. intros c Hc. apply in_map_iff in Hc. destruct Hc as [kv [<- Hkv]]. apply filter_In in Hkv.
+        destruct Hkv as [Hkv _]. rewrite Hrt in Hkv. rewrite Forall_forall in H5. apply H5. eapply row_pairs_in_indices. exact Hkv.
+    - intros i k Hi. unfold csr_den.
+      replace i with (Z.of_nat (Z.to_nat i)) by lia.
+      rewrite !csr_of_rows_row by (try rewrite map_length; lia).
+      rewrite (nth_indep _ [] (filter nzkv [])) by (rewrite map_length; lia). rewrite map_nth.
+      apply row_get_filter. rewrite Hrow by lia. rewrite row_pairs_keys by assumption.
+      apply SS_lt_NoDup, strictly_increasing_SS, H6. lia.
+  Qed.
+End Prune.
+
+(* ====================================================================== _einsum_single *)
+Lemma first_labels_In l : forall seen lab, In lab (first_labels l seen) <-> In lab l /\ ~ In lab seen.
+Proof.
+  induction l as [|x l IH]; intros seen lab; simpl; [tauto|].
+  destruct (mem_z x seen) eqn:E.
+  - apply mem_z_In in E. rewrite IH. split; [tauto|]. intros [[->|H] Hn]; [contradiction|tauto].
+  - assert (Hx : ~ In x seen) by (intros H; apply mem_z_In in H; congruence).
+    simpl. rewrite IH. simpl. split.
+    + intros [<-|[H1 H2]]; [tauto|]. split; [tauto|]. intros H; apply H2; right; exact H.
+    + intros [[->|H1] H2]; [left; reflexivity|]. destruct (Z.eq_dec x lab) as [->|Hne]; [left; reflexivity|].
+      right. split; [exact H1|]. intros [?|?]; [congruence|contradiction].
+Qed.
+
+Lemma positions_of_In lhs lab p : In p (positions_of lhs lab) <-> (p < length lhs)%nat /\ nth p lhs 0 = lab.
+Proof. unfold positions_of. rewrite filter_In, in_seq, Z.eqb_eq. split; intros [H1 H2]; split; auto; lia. Qed.
+
+Lemma sel_equiv lhs ix : es_selector lhs ix = es_consistent lhs ix.
+Proof.
+  apply eq_true_iff_eq. unfold es_selector, es_consistent, where_groups. split.
+  - intros H. apply forallb_forall. intros p Hp. apply forallb_forall. intros q Hq.
+    apply in_seq in Hp. apply in_seq in Hq.
+    destruct (Z.eqb_spec (nth p lhs 0) (nth q lhs 0)) as [E|]; [|reflexivity]. simpl.
+    set (lab := nth p lhs 0) in *.
+    assert (Hlab : In lab (first_labels lhs [])).
+    { apply first_labels_In. split; [apply nth_In; lia|tauto]. }
+    rewrite forallb_forall in H. specialize (H (positions_of lhs lab) (in_map _ _ _ Hlab)).
+    assert (Hpp : In p (positions_of lhs lab)) by (apply positions_of_In; split; [lia|reflexivity]).
+    assert (Hqq : In q (positions_of lhs lab)) by (apply positions_of_In; split; [lia|symmetry; exact E]).
+    destruct (positions_of lhs lab) as [|loc0 rlocs]; [contradiction|]. rewrite forallb_forall in H.
+    assert (G : forall x, In x (loc0 :: rlocs) -> nth loc0 ix 0 = nth x ix 0).
+    { intros x [<-|Hx]; [reflexivity|]. apply Z.eqb_eq. apply H. exact Hx. }
+    apply Z.eqb_eq. rewrite <- (G p Hpp), <- (G q Hqq). reflexivity.
+  - intros H. apply forallb_forall. intros locs Hl. apply in_map_iff in Hl. destruct Hl as [lab [<- Hlab]].
+    destruct (positions_of lhs lab) as [|loc0 rlocs] eqn:Ep; [reflexivity|].
+    apply forallb_forall. intros q Hq.
+    assert (H0 : In loc0 (positions_of lhs lab)) by (rewrite Ep; left; reflexivity).
+    assert (H1 : In q (positions_of lhs lab)) by (rewrite Ep; right; exact Hq).
+    apply positions_of_In in H0. apply positions_of_In in H1. destruct H0 as [L0 E0]. destruct H1 as [L1 E1].
+    rewrite forallb_forall in H. specialize (H loc0 ltac:(apply in_seq; lia)). rewrite forallb_forall in H.
+    specialize (H q ltac:(apply in_seq; lia)). rewrite E0, E1, Z.eqb_refl in H. simpl in H. exact H.
+Qed.
+
+Section EinsumDen.
+  Variable V : Type.
+  Variable vzero : V.
+  Variable vadd vmul : V -> V -> V.
+  Hypothesis SR : comm_semiring vzero vadd vmul.
+
+  Lemma vsum_single_out_idx (f : idx -> V) (x : V) k0 (L : list idx) :
+    NoDup L -> In k0 L -> f k0 = vzero ->
+    vsum V vzero vadd (map (fun k => if idx_eqb k k0 then x else f k) L) = vadd x (vsum V vzero vadd (map f L)).
+  Proof.
+    induction L as [|a L IH]; simpl; intros Hnd Hin Hf; [tauto|].
+    apply NoDup_cons_iff in Hnd. destruct Hnd as [Ha Hnd].
+    destruct (idx_eqb a k0) eqn:E.
+    - apply idx_eqb_eq in E. subst a. rewrite Hf, (sr_add_0_l _ _ _ SR). f_equal. f_equal. apply map_ext_in. intros k Hk.
+      destruct (idx_eqb k k0) eqn:E2; [apply idx_eqb_eq in E2; subst; contradiction|reflexivity].
+    - destruct Hin as [->|Hin]; [rewrite idx_eqb_refl in E; discriminate|]. rewrite (IH Hnd Hin Hf).
+      rewrite !(sr_add_assoc _ _ _ SR). f_equal. apply (sr_add_comm _ _ _ SR).
+  Qed.
+
+  (* summing G over the stored entries = summing over all index tuples *)
+  Lemma vsum_sparse_idx (G : idx -> V -> V) (L : list idx) (es : list (idx * V)) :
+    NoDup (map fst es) -> NoDup L -> (forall e, In e es -> In (fst e) L) ->
+    vsum V vzero vadd (map (fun e => G (fst e) (snd e)) es)
+    = vsum V vzero vadd (map (fun ix => match lookup es ix with Some v => G ix v | None => vzero end) L).
+  Proof.
+    induction es as [|[k v] es IH]; simpl; intros Hnd HL Hin.
+    - clear -SR. induction L as [|a L IHL]; simpl; [reflexivity|]. rewrite (sr_add_0_l _ _ _ SR). exact IHL.
+    - apply NoDup_cons_iff in Hnd. destruct Hnd as [Hk Hnd].
+      rewrite (IH Hnd HL) by (intros e He; apply Hin; right; exact He).
+      rewrite <- (vsum_single_out_idx (fun ix => match lookup es ix with Some w => G ix w | None => vzero end) (G k v) k L HL).
+      + f_equal. apply map_ext. intros ix. destruct (idx_eqb ix k) eqn:E.
+        * apply idx_eqb_eq in E. subst ix. rewrite (lookup_notin V es k Hk), idx_eqb_refl. reflexivity.
+        * destruct (lookup es ix); [reflexivity|]. destruct (idx_eqb k ix) eqn:E2; [|reflexivity].
+          apply idx_eqb_eq in E2. subst. rewrite idx_eqb_refl in E. discriminate.
+      + apply (Hin (k, v)). left. reflexivity.
+      + rewrite (lookup_notin V es k Hk). reflexivity.
+  Qed.
+
+  Lemma vsum_filter_indicator {A} (P : A -> bool) (g : A -> V) (l : list A) :
+    vsum V vzero vadd (map g (filter P l)) = vsum V vzero vadd (map (fun x => if P x then g x else vzero) l).
+  Proof.
+    induction l as [|x l IH]; simpl; [reflexivity|]. destruct (P x); simpl; rewrite IH; [reflexivity|].
+    symmetry. apply (sr_add_0_l _ _ _ SR).
+  Qed.
+
+  Theorem einsum_single_den_proof (lhs rhs : list Z) (c : coo V) :
+    NoDup (c_coords c) -> Forall (in_range (c_shape c)) (c_coords c) -> length (c_data c) = length (c_coords c) ->
+    c_fill c = vzero -> es_shape_ok lhs (c_shape c) = true ->
+    exists r, einsum_single_m V lhs rhs c = Ok r
+      /\ c_shape r = a_shape (np_einsum1 V vzero vadd lhs rhs (mkArr (c_shape c) (den c)))
+      /\ forall o, den_sum V vzero vadd r o = a_at (np_einsum1 V vzero vadd lhs rhs (mkArr (c_shape c) (den c))) o.
+  Proof.
+    intros Hnd Hr Hlen Hfill Hsh. unfold einsum_single_m. rewrite Hsh. simpl negb. cbv iota.
+    eexists. split; [reflexivity|]. split; [reflexivity|].
+    intros o. unfold den_sum, entries at 1. cbn [c_coords c_data np_einsum1 a_at a_shape].
+    set (es := entries c). set (kept := filter (fun e => es_selector lhs (fst e)) es).
+    assert (Hes : map fst es = c_coords c) by (unfold es, entries; apply map_fst_combine; lia).
+    (* left: the kept entries whose projection is o *)
+    assert (E1 : combine (map (fun e => es_proj lhs rhs (fst e)) kept) (map snd kept)
+                 = map (fun e => (es_proj lhs rhs (fst e), snd e)) kept).
+    { clear. induction kept as [|e k IH]; simpl; [reflexivity|]. rewrite IH. reflexivity. }
+    rewrite E1. rewrite (vsum_filter_indicator (fun e : idx * V => idx_eqb (fst e) o) snd).
+    rewrite map_map. cbn [fst snd]. unfold kept.
+    rewrite (vsum_filter_indicator (fun e : idx * V => es_selector lhs (fst e))
+                                   (fun e => if idx_eqb (es_proj lhs rhs (fst e)) o then snd e else vzero)).
+    rewrite (vsum_sparse_idx (fun ix v => if es_selector lhs ix then (if idx_eqb (es_proj lhs rhs ix) o then v else vzero) else vzero)
+                             (all_indices (c_shape c)) es).
+    - unfold sum_idx. f_equal. apply map_ext. intros ix. unfold den. fold es. rewrite sel_equiv, Hfill.
+      destruct (lookup es ix); destruct (es_consistent lhs ix); destruct (idx_eqb (es_proj lhs rhs ix) o); reflexivity.
+    - rewrite Hes. exact Hnd.
+    - apply all_indices_NoDup.
+    - intros e He. apply all_indices_In. rewrite Forall_forall in Hr. apply Hr. rewrite <- Hes. apply in_map. exact He.
+  Qed.
+End EinsumDen.
+
+Example einsum_single_example :
+  let c := mkCOO [2; 2; 3] [[0; 0; 1]; [0; 1; 2]; [1; 1; 0]; [1; 1; 2]] [5; 7; 11; 13] 0 in
+  (* "iij->j": the trace over the first two axes *)
+  match einsum_single_m Z [105; 105; 106] [106] c with
+  | Ok r => c_shape r = [3] /\ map (den_sum Z 0 Z.add r) (all_indices [3]) = [11; 5; 13]
+  | _ => False end.
+Proof. vm_compute. split; reflexivity. Qed.
 
 (* ====================================================================== non-vacuity *)
 (* the hypotheses of the theorems above hold of concrete non-trivial operands over Z *)
